@@ -1,43 +1,14 @@
-(* MaildirFS/CommandProofs.v — the operation lists of the model's commands are
-   legal: proved here for APPEND with any number of messages (the command at
-   the centre of C14/C15), for every filesystem state. *)
+(* MaildirFS/CommandProofs.v — every command of Ops.run_cmd emits, in every
+   state satisfying Inv, only operations that are legal where they are applied;
+   hence so does every history.  The proofs walk through the operation list in
+   continuation style: a step lemma shows the next operation(s) legal and hands
+   the facts about the state they lead to on to the rest of the list. *)
 From PV Require Import Base.Prelude Base.Decimal MaildirFS.FS MaildirFS.UidList MaildirFS.Ops
   MaildirFS.Spec MaildirFS.FSProofs MaildirFS.UidListProofs MaildirFS.DurabilityProofs
   MaildirFS.Legal MaildirFS.LegalProofs MaildirFS.CrashProofs.
 Local Open Scope N_scope.
 
-(* ---- what a legal step does to the two facts the proof tracks *)
-Lemma step_key_unused lay m o m' K :
-  legal m o -> apply_op lay m o = Some m' -> key_unused m K ->
-  (forall src f s i, o <> OLink src (PMsg f s K i)) -> key_unused m' K.
-Proof.
-  intros L A HK Hno f s i Hs.
-  assert (LP : live_path (PMsg f s K i)) by (exists f, s, K, i; split; [reflexivity|exact Hs]).
-  destruct (legal_live _ _ _ _ L A) as [F|[HL|[HR|HU]]].
-  - rewrite (F _ LP). exact (HK _ _ _ Hs).
-  - destruct HL as (src & dst & c & -> & (g & t & k0 & j & -> & Ht0) & Hk & Hl).
-    rewrite Hl. destruct (path_eqb (PMsg g t k0 j) (PMsg f s K i)) eqn:E; [|exact (HK _ _ _ Hs)].
-    apply path_eqb_eq in E. inversion E; subst. exfalso. exact (Hno _ _ _ _ eq_refl).
-  - destruct HR as (src & dst & c & -> & (g & t & k0 & j & -> & Ht0)
-                    & (g' & t' & k1 & j' & -> & Ht1) & Hkk & Hc & Hl).
-    cbn [key_of] in Hkk. subst k1. rewrite Hl.
-    destruct (path_eqb (PMsg g' t' k0 j') (PMsg f s K i)) eqn:E.
-    + apply path_eqb_eq in E. inversion E; subst. rewrite (HK _ _ _ Ht0) in Hc. discriminate.
-    + destruct (path_eqb (PMsg g t k0 j) (PMsg f s K i)); [reflexivity|exact (HK _ _ _ Hs)].
-  - destruct HU as (p & -> & (g & t & k0 & j & -> & Ht0) & Hl).
-    rewrite Hl. destruct (path_eqb (PMsg g t k0 j) (PMsg f s K i)); [reflexivity|exact (HK _ _ _ Hs)].
-Qed.
-
-Lemma step_uidl_same lay m o m' f :
-  legal m o -> apply_op lay m o = Some m' ->
-  (forall n, o <> ORename (PTmp f n) (PCtl f CUidl)) ->
-  lookup m' (PCtl f CUidl) = lookup m (PCtl f CUidl).
-Proof.
-  intros L A Hno. destruct (legal_uidl_path _ _ _ _ f L A) as [E|[n [t [u' [E _]]]]].
-  - exact E.
-  - exfalso. exact (Hno n E).
-Qed.
-
+(* ------------------------------------------- Prop -> bool (completeness) *)
 Lemma key_unused_b_complete m k : key_unused m k -> key_unused_b m k = true.
 Proof.
   intro H. unfold key_unused_b. apply forallb_forall. intros [p n] Hin. cbn [fst].
@@ -45,17 +16,282 @@ Proof.
   destruct (live s) eqn:Hs; [|reflexivity]. cbn [andb].
   destruct (bytes_eqb k' k) eqn:Ek; [|reflexivity]. apply bytes_eqb_eq in Ek. subst k'.
   exfalso. specialize (H f s i Hs).
-  clear - H Hin. induction m as [|[q x] m IH]; [destruct Hin|].
-  cbn [lookup] in H. destruct (path_eqb q (PMsg f s k i)) eqn:E; [discriminate|].
-  destruct Hin as [Hin|Hin]; [|exact (IH H Hin)].
-  injection Hin as -> _. rewrite path_eqb_refl in E. discriminate.
+  apply (lookup_None_notin _ _ H). apply in_map_iff. exists (PMsg f s k i, n).
+  split; [reflexivity|exact Hin].
 Qed.
 
-(* ---- pure facts about the uid list after adding a record *)
 Lemma recorded_b_complete u uid k : recorded u uid k -> recorded_b u uid k = true.
 Proof.
   intros [r [Hin [<- <-]]]. unfold recorded_b. apply existsb_exists. exists r.
   split; [exact Hin|]. rewrite N.eqb_refl, bytes_eqb_refl. reflexivity.
+Qed.
+
+Lemma has_file_b_sound m f k : Inv m -> has_file_b m f k = true -> has_file m f k.
+Proof.
+  intros [_ _ _ Hnd] H. unfold has_file_b in H. apply existsb_exists in H as [[p n] [Hin H]].
+  destruct p as [| |g s k' i| |]; try discriminate. destruct n as [|[c|]]; try discriminate.
+  apply andb_true_iff in H as [H H3]. apply andb_true_iff in H as [H1 H2].
+  apply fname_eqb_eq in H1. apply bytes_eqb_eq in H3. subst g k'.
+  exists i, c, s. split; [exact H2|exact (In_lookup _ _ _ Hnd Hin)].
+Qed.
+
+Lemma nodup_uids_complete l : NoDup (map r_uid l) -> nodup_uids l = true.
+Proof.
+  induction l as [|r l IH]; cbn [map nodup_uids]; intro H; [reflexivity|].
+  inversion H as [|? ? Hr Hl]; subst. rewrite (IH Hl), andb_true_r. apply negb_true_iff.
+  destruct (existsb (fun x => r_uid x =? r_uid r) l) eqn:E; [|reflexivity].
+  apply existsb_exists in E as [x [Hx Ex]]. apply N.eqb_eq in Ex. exfalso. apply Hr.
+  apply in_map_iff. exists x. split; assumption.
+Qed.
+
+Lemma uids_ok_b_complete u : uids_ok u -> uids_ok_b u = true.
+Proof.
+  intros [Hnd Hlt]. unfold uids_ok_b. rewrite (nodup_uids_complete _ Hnd). cbn [andb].
+  apply forallb_forall. intros r Hr. apply N.ltb_lt. exact (Hlt r Hr).
+Qed.
+
+Lemma extends_b_complete m f u u' :
+  Inv m -> extends (has_file m f) u u' -> extends_b m f u u' = true.
+Proof.
+  intros I [Hv [Hn [Ho Hk]]]. unfold extends_b.
+  rewrite Hv, N.eqb_refl. cbn [andb]. apply N.leb_le in Hn. rewrite Hn. cbn [andb].
+  apply andb_true_iff. split; apply forallb_forall; intros r Hr.
+  - destruct (r_uid r <? u_next u) eqn:E; [|reflexivity]. apply N.ltb_lt in E.
+    apply recorded_b_complete. apply Ho; [|exact E]. exists r. repeat split. exact Hr.
+  - destruct (has_file_b m f (r_key r)) eqn:E; [|reflexivity].
+    apply recorded_b_complete. apply Hk; [exists r; repeat split; exact Hr|].
+    exact (has_file_b_sound _ _ _ I E).
+Qed.
+
+(* ------------------------------------------------------ generic step *)
+Lemma step_k lay m o rest :
+  Inv m -> legal_b lay m o = true ->
+  (forall m1, apply_op lay m o = Some m1 -> legal lay m o -> Inv m1 ->
+              legal_ops_b lay m1 rest = true) ->
+  legal_ops_b lay m (o :: rest) = true.
+Proof.
+  intros I Hb K. cbn [legal_ops_b]. rewrite Hb. cbn [andb].
+  destruct (apply_op lay m o) as [m1|] eqn:A; [|reflexivity].
+  pose proof (legal_b_sound _ _ _ Hb) as L.
+  exact (K m1 eq_refl L (legal_step_inv _ _ _ _ I L A)).
+Qed.
+
+(* the part of the state a restarted server looks at *)
+Definition same_view (m m1 : fs) : Prop :=
+  forall q, junk q = false -> lookup m1 q = lookup m q.
+
+Lemma same_view_refl m : same_view m m.
+Proof. intros q _. reflexivity. Qed.
+Lemma same_view_trans m1 m2 m3 : same_view m1 m2 -> same_view m2 m3 -> same_view m1 m3.
+Proof. intros H1 H2 q Hq. rewrite (H2 q Hq). exact (H1 q Hq). Qed.
+
+(* operations on scratch paths *)
+Definition scratch (o : fsop) : bool :=
+  match o with
+  | OCreat p | OWrite p _ | OUnlink p => junk p
+  | OUtime _ => true
+  | _ => false
+  end.
+
+Lemma scratch_legal_b lay m o : scratch o = true -> legal_b lay m o = true.
+Proof.
+  destruct o; cbn [scratch legal_b]; intro H; try discriminate; try reflexivity.
+  - rewrite H. reflexivity.
+  - exact H.
+  - rewrite H. reflexivity.
+Qed.
+
+Lemma scratch_view lay m o m1 :
+  apply_op lay m o = Some m1 -> scratch o = true -> same_view m m1.
+Proof.
+  intros A Hs q Hq. destruct o; cbn [scratch] in Hs; try discriminate.
+  - apply (apply_op_frame _ _ _ _ _ A). cbn. intros ->. congruence.
+  - apply (apply_op_frame _ _ _ _ _ A). cbn. intros ->. congruence.
+  - apply (apply_op_frame _ _ _ _ _ A). cbn. intros ->. congruence.
+  - cbn [apply_op] in A. destruct (exists_ m p); [|discriminate]. injection A as <-. reflexivity.
+Qed.
+
+Lemma scratch_ops_k lay l : forallb scratch l = true -> forall m rest,
+  Inv m ->
+  (forall m1, Inv m1 -> same_view m m1 -> legal_ops_b lay m1 rest = true) ->
+  legal_ops_b lay m (l ++ rest) = true.
+Proof.
+  induction l as [|o l IH]; intros Hs m rest I K; cbn [app].
+  - exact (K m I (same_view_refl m)).
+  - cbn [forallb] in Hs. apply andb_true_iff in Hs as [Ho Hl].
+    apply (step_k lay m o _ I (scratch_legal_b lay m o Ho)). intros m1 A _ I1.
+    apply (IH Hl m1 rest I1). intros m2 I2 V.
+    apply (K m2 I2). exact (same_view_trans _ _ _ (scratch_view _ _ _ _ A Ho) V).
+Qed.
+
+(* facts that only depend on the view *)
+Lemma view_uidl_at m m1 f u : same_view m m1 -> uidl_at m1 f u <-> uidl_at m f u.
+Proof. intro V. unfold uidl_at. rewrite (V (PCtl f CUidl) eq_refl). reflexivity. Qed.
+
+Lemma view_file_at m m1 f k i c : same_view m m1 -> file_at m1 f k i c <-> file_at m f k i c.
+Proof.
+  intro V. unfold file_at. split; intros [s [Hs Hl]]; exists s; split; try exact Hs.
+  - rewrite <- (V _ (live_not_junk f s k i Hs)). exact Hl.
+  - rewrite (V _ (live_not_junk f s k i Hs)). exact Hl.
+Qed.
+
+Lemma view_has_file m m1 f k : same_view m m1 -> has_file m1 f k <-> has_file m f k.
+Proof. intro V. unfold has_file. split; intros [i [c H]]; exists i, c;
+  apply (view_file_at _ _ f k i c V); exact H. Qed.
+
+Lemma view_key_unused m m1 k : same_view m m1 -> key_unused m k -> key_unused m1 k.
+Proof. intros V H f s i Hs. rewrite (V _ (live_not_junk f s k i Hs)). exact (H f s i Hs). Qed.
+
+(* ------------------------------------------------- rewriting a uid list *)
+(* m1 is m with the uid list of f replaced (everything else a restarted
+   server looks at unchanged) *)
+Definition view_uidl (m m1 : fs) (f : fname) (u' : uidl) : Prop :=
+  forall q, junk q = false ->
+  lookup m1 q = if path_eqb (PCtl f CUidl) q then Some (File (Text (print_uidl u')))
+                else lookup m q.
+
+Lemma rewrite_k lay m f tmp u' rest :
+  Inv m -> wf_uidl u' = true -> uids_ok u' ->
+  (forall u, uidl_at m f u -> extends (has_file m f) u u') ->
+  (forall m1, Inv m1 -> view_uidl m m1 f u' -> legal_ops_b lay m1 rest = true) ->
+  legal_ops_b lay m (locked_rewrite f tmp u' ++ rest) = true.
+Proof.
+  intros I Hw Hok He K. unfold locked_rewrite, rewrite_ops, lock_op, unlock_op. cbn [app].
+  apply step_k; [exact I|reflexivity|]. intros m1 A1 _ I1.
+  apply step_k; [exact I1|reflexivity|]. intros m2 A2 _ I2.
+  apply step_k; [exact I2|reflexivity|]. intros m3 A3 _ I3.
+  assert (V3 : same_view m m3).
+  { apply (same_view_trans _ m1); [exact (scratch_view _ _ _ _ A1 eq_refl)|].
+    apply (same_view_trans _ m2); [exact (scratch_view _ _ _ _ A2 eq_refl)|].
+    exact (scratch_view _ _ _ _ A3 eq_refl). }
+  assert (T3 : lookup m3 (PTmp f tmp) = Some (File (Text (print_uidl u')))).
+  { cbn [apply_op] in A3. destruct (lookup m2 (PTmp f tmp)) as [[|c0]|] eqn:E; try discriminate.
+    injection A3 as <-. rewrite (lookup_replace _ _ _ _ _ E), path_eqb_refl. reflexivity. }
+  assert (Hb : legal_b lay m3 (ORename (PTmp f tmp) (PCtl f CUidl)) = true).
+  { assert (Hi : install_ok m3 f tmp = true).
+    { unfold install_ok. rewrite T3, (uidl_roundtrip _ Hw), bytes_eqb_refl, Hw,
+        (uids_ok_b_complete _ Hok). cbn [andb].
+      destruct (lookup m3 (PCtl f CUidl)) as [[|[c|t0]]|] eqn:E0; try reflexivity.
+      destruct (parse_uidl t0) as [u| | |] eqn:P0; try reflexivity.
+      apply (extends_b_complete _ _ _ _ I3).
+      assert (Hu : uidl_at m f u).
+      { apply (view_uidl_at _ _ f u V3). exists t0. split; assumption. }
+      destruct (He u Hu) as [Hv [Hn [Ho Hk]]]. split; [exact Hv|]. split; [exact Hn|].
+      split; [exact Ho|]. intros uid k Hr Hf. apply Hk; [exact Hr|].
+      apply (view_has_file _ _ f k V3). exact Hf. }
+    cbn [legal_b]. destruct f; rewrite ?fname_eqb_refl, Hi; reflexivity. }
+  apply step_k; [exact I3|exact Hb|]. intros m4 A4 _ I4.
+  apply step_k; [exact I4|reflexivity|]. intros m5 A5 _ I5.
+  apply (K m5 I5). intros q Hq.
+  rewrite (scratch_view _ _ _ _ A5 eq_refl q Hq).
+  destruct (apply_rename _ _ _ _ _ A4) as [c [Hc Hl]]. rewrite T3 in Hc. injection Hc as <-.
+  rewrite Hl. destruct (path_eqb (PCtl f CUidl) q); [reflexivity|].
+  destruct (path_eqb (PTmp f tmp) q) eqn:E.
+  - apply path_eqb_eq in E. subst q. discriminate Hq.
+  - exact (V3 q Hq).
+Qed.
+
+(* ------------------------------------------------- delivering a file *)
+Definition view_add (m m1 : fs) (p : path) (n : node) : Prop :=
+  forall q, junk q = false -> lookup m1 q = if path_eqb p q then Some n else lookup m q.
+
+Lemma add_k lay m f s key info cid rest :
+  Inv m -> live s = true -> key_unused m key -> wf_key key = true -> wf_info info = true ->
+  (forall m1, Inv m1 -> view_add m m1 (PMsg f s key info) (File (Opaque cid)) ->
+              legal_ops_b lay m1 rest = true) ->
+  legal_ops_b lay m (add_ops f s key info cid ++ rest) = true.
+Proof.
+  intros I Hs HK Hwk Hwi K. unfold add_ops. cbn [app].
+  apply step_k; [exact I|reflexivity|]. intros m1 A1 _ I1.
+  apply step_k; [exact I1|reflexivity|]. intros m2 A2 _ I2.
+  apply step_k; [exact I2|reflexivity|]. intros m3 A3 _ I3.
+  assert (V3 : same_view m m3).
+  { apply (same_view_trans _ m1); [exact (scratch_view _ _ _ _ A1 eq_refl)|].
+    apply (same_view_trans _ m2); [exact (scratch_view _ _ _ _ A2 eq_refl)|].
+    exact (scratch_view _ _ _ _ A3 eq_refl). }
+  assert (F3 : lookup m3 (PMsg f STmp key []) = Some (File (Opaque cid))).
+  { cbn [apply_op] in A3. destruct (exists_ m2 (PMsg f STmp key [])); [|discriminate].
+    injection A3 as <-.
+    cbn [apply_op] in A2. destruct (lookup m1 (PMsg f STmp key [])) as [[|c0]|] eqn:E; try discriminate.
+    injection A2 as <-. rewrite (lookup_replace _ _ _ _ _ E), path_eqb_refl. reflexivity. }
+  assert (Hb : legal_b lay m3 (OLink (PMsg f STmp key []) (PMsg f s key info)) = true).
+  { cbn [legal_b]. rewrite fname_eqb_refl, bytes_eqb_refl, Hs,
+      (key_unused_b_complete _ _ (view_key_unused _ _ _ V3 HK)), Hwk, Hwi, F3. reflexivity. }
+  apply step_k; [exact I3|exact Hb|]. intros m4 A4 _ I4.
+  apply step_k; [exact I4|reflexivity|]. intros m5 A5 _ I5.
+  apply (K m5 I5). intros q Hq.
+  rewrite (scratch_view _ _ _ _ A5 eq_refl q Hq).
+  destruct (apply_link _ _ _ _ _ A4) as [c [Hc [_ Hl]]]. rewrite F3 in Hc. injection Hc as <-.
+  rewrite Hl. destruct (path_eqb (PMsg f s key info) q); [reflexivity|exact (V3 q Hq)].
+Qed.
+
+(* ---------------------------------------- directory scans and lookups *)
+Lemma files_of_In m f x :
+  In x (files_of m f) <->
+  In (PMsg f (m_sub x) (m_key x) (m_info x), File (Opaque (m_cid x))) m /\ live (m_sub x) = true.
+Proof.
+  unfold files_of. rewrite in_flat_map. split.
+  - intros [[p n] [Hin Hx]]. destruct p as [| |g s k i| |]; try destruct Hx.
+    destruct n as [|[c|]]; try destruct Hx.
+    destruct (fname_eqb f g && negb (sub_eqb s STmp)) eqn:E; [|destruct Hx].
+    destruct Hx as [<-|[]]. cbn [m_sub m_key m_info m_cid].
+    apply andb_true_iff in E as [E1 E2]. apply fname_eqb_eq in E1. subst g.
+    split; [exact Hin|exact E2].
+  - intros [Hin Hl]. exists (PMsg f (m_sub x) (m_key x) (m_info x), File (Opaque (m_cid x))).
+    split; [exact Hin|]. rewrite fname_eqb_refl. unfold live in Hl. rewrite Hl. cbn [andb].
+    left. destruct x; reflexivity.
+Qed.
+
+Lemma files_of_lookup m f x : Inv m -> In x (files_of m f) ->
+  lookup m (PMsg f (m_sub x) (m_key x) (m_info x)) = Some (File (Opaque (m_cid x)))
+  /\ live (m_sub x) = true /\ wf_key (m_key x) = true /\ wf_info (m_info x) = true.
+Proof.
+  intros I Hx. apply files_of_In in Hx as [Hin Hl].
+  destruct I as [_ _ I3 I4]. pose proof (In_lookup _ _ _ I4 Hin) as Hlk.
+  destruct (I3 _ _ _ _ _ Hl Hlk) as [Hk [Hi _]]. repeat split; assumption.
+Qed.
+
+Lemma find_file_some fl k x : find_file fl k = Some x -> In x fl /\ m_key x = k.
+Proof.
+  unfold find_file. intro H. apply find_some in H as [Hin Hk]. apply bytes_eqb_eq in Hk.
+  split; assumption.
+Qed.
+
+Lemma find_file_none fl k : find_file fl k = None -> forall x, In x fl -> m_key x <> k.
+Proof.
+  unfold find_file. intros H x Hx E. pose proof (find_none _ _ H x Hx) as Hn. cbn in Hn.
+  rewrite E, bytes_eqb_refl in Hn. discriminate.
+Qed.
+
+Lemma has_file_find m f k : Inv m -> has_file m f k -> find_file (files_of m f) k <> None.
+Proof.
+  intros I [i [c [s [Hs Hl]]]] Hn.
+  apply (find_file_none _ _ Hn {| m_sub := s; m_key := k; m_info := i; m_cid := c |});
+    [|reflexivity].
+  apply files_of_In. cbn [m_sub m_key m_info m_cid]. split; [exact (lookup_In _ _ _ Hl)|exact Hs].
+Qed.
+
+Lemma locate_spec u fl uid rec x : locate u fl uid = Some (rec, x) ->
+  In rec (u_recs u) /\ r_uid rec = uid /\ In x fl /\ m_key x = r_key rec.
+Proof.
+  unfold locate, find_rec. destruct (find _ (u_recs u)) as [r|] eqn:Er; [|discriminate].
+  destruct (find_file fl (r_key r)) as [y|] eqn:Ey; [|discriminate].
+  intro H. injection H as <- <-. apply find_some in Er as [Hr Hu]. apply N.eqb_eq in Hu.
+  apply find_file_some in Ey as [Hy Hk]. repeat split; assumption.
+Qed.
+
+(* ---------------------------------------------- uid lists (pure facts) *)
+Lemma uidl_at_fun m f u u' : uidl_at m f u -> uidl_at m f u' -> u = u'.
+Proof. intros [t [H1 H2]] [t' [H1' H2']]. congruence. Qed.
+
+Lemma inv_uidl_text m f u : Inv m -> uidl_at m f u ->
+  lookup m (PCtl f CUidl) = Some (File (Text (print_uidl u))) /\ wf_uidl u = true /\ uids_ok u.
+Proof.
+  intros I Hu. destruct (inv_uidl_at _ _ _ I Hu) as [Hok Hw].
+  destruct I as [I1 _ _ _]. destruct Hu as [t [Hl Hp]].
+  destruct (I1 f _ Hl) as [u0 [Et [Hw0 _]]]. injection Et as ->.
+  rewrite (uidl_roundtrip _ Hw0) in Hp. injection Hp as ->.
+  split; [exact Hl|]. split; [exact Hw|exact Hok].
 Qed.
 
 Lemma set_rec_new r l :
@@ -79,131 +315,21 @@ Lemma with_rec_uids_ok u fields fn : uids_ok u -> uids_ok (with_rec u fields fn)
 Proof.
   intros H. pose proof (with_rec_recs u fields fn H) as E. destruct H as [Hnd Hlt].
   split.
-  - rewrite E, map_app. cbn [map r_uid].
-    assert (Hx : ~ In (u_next u) (map r_uid (u_recs u))).
-    { intro Hin. apply in_map_iff in Hin as [x [Hx Hin]]. specialize (Hlt x Hin). lia. }
-    clear - Hnd Hx. induction (map r_uid (u_recs u)) as [|a l IH]; cbn [app].
-    + constructor; [intros []|constructor].
-    + inversion Hnd as [|? ? Ha Hl]; subst. constructor.
-      * intro Hin. apply in_app_or in Hin as [Hin|[<-|[]]]; [contradiction|].
-        apply Hx. left. reflexivity.
-      * apply IH; [exact Hl|]. intro Hin. apply Hx. right. exact Hin.
+  - rewrite E, map_app. cbn [map r_uid]. apply nodup_snoc; [exact Hnd|].
+    intro Hin. apply in_map_iff in Hin as [x [Hx Hin]]. specialize (Hlt x Hin). lia.
   - intros r Hr. rewrite E in Hr. unfold with_rec. cbn [u_next].
     apply in_app_or in Hr as [Hr|[<-|[]]]; [specialize (Hlt r Hr); lia|cbn [r_uid]; lia].
 Qed.
 
-Lemma with_rec_extends_b m f u fields fn :
-  uids_ok u -> extends_b m f u (with_rec u fields fn) = true.
+Lemma with_rec_extends P u fields fn : uids_ok u -> extends P u (with_rec u fields fn).
 Proof.
   intros H. pose proof (with_rec_recs u fields fn H) as E. destruct H as [Hnd Hlt].
-  unfold extends_b. rewrite E. unfold with_rec at 1 2. cbn [u_val u_next].
-  rewrite N.eqb_refl. cbn [andb].
-  assert (Hle : (u_next u <=? u_next u + 1) = true) by (apply N.leb_le; lia).
-  rewrite Hle. cbn [andb]. apply andb_true_iff. split.
-  - apply forallb_forall. intros r Hr. apply in_app_or in Hr as [Hr|[<-|[]]].
-    + specialize (Hlt r Hr). apply N.ltb_lt in Hlt. rewrite Hlt.
-      apply recorded_b_complete. exists r. repeat split. exact Hr.
-    + cbn [r_uid]. rewrite N.ltb_irrefl. reflexivity.
-  - apply forallb_forall. intros r Hr.
-    destruct (has_file_b m f (r_key r)); [|reflexivity].
-    apply recorded_b_complete. exists r. split; [|split; reflexivity].
-    rewrite E. apply in_or_app. left. exact Hr.
-Qed.
-
-(* ---- one step of the walk through an operation list, continuation style *)
-
-Lemma scratch_step lay m o rest f :
-  legal_b m o = true -> no_install o f -> no_link o ->
-  (forall m1, apply_op lay m o = Some m1 ->
-     lookup m1 (PCtl f CUidl) = lookup m (PCtl f CUidl) ->
-     (forall K, key_unused m K -> key_unused m1 K) ->
-     legal_ops_b lay m1 rest = true) ->
-  legal_ops_b lay m (o :: rest) = true.
-Proof.
-  intros Hb Hi Hl K. cbn [legal_ops_b]. rewrite Hb. cbn [andb].
-  destruct (apply_op lay m o) as [m1|] eqn:A; [|reflexivity].
-  pose proof (legal_b_sound _ _ Hb) as L. apply (K m1 eq_refl).
-  - exact (step_uidl_same _ _ _ _ _ L A Hi).
-  - intros K0 HK. apply (step_key_unused _ _ _ _ _ L A HK). intros src g s i E.
-    exact (Hl _ _ E).
-Qed.
-
-Lemma write_step lay m p c rest f :
-  junk p = true -> 
-  (forall m1, apply_op lay m (OWrite p c) = Some m1 ->
-     lookup m1 (PCtl f CUidl) = lookup m (PCtl f CUidl) ->
-     (forall K, key_unused m K -> key_unused m1 K) ->
-     lookup m1 p = Some (File c) ->
-     legal_ops_b lay m1 rest = true) ->
-  legal_ops_b lay m (OWrite p c :: rest) = true.
-Proof.
-  intros Hj K. apply (scratch_step lay m (OWrite p c) rest f).
-  - exact Hj.
-  - intros n E. discriminate E.
-  - intros src dst E. discriminate E.
-  - intros m1 A Hu Hk. apply (K m1 A Hu Hk).
-    cbn [apply_op] in A. destruct (lookup m p) as [[|c0]|] eqn:E; try discriminate.
-    injection A as <-. rewrite (lookup_replace _ _ _ _ _ E), path_eqb_refl. reflexivity.
-Qed.
-
-Lemma link_step lay m f s K i rest g :
-  live s = true -> key_unused m K ->
-  (forall m1, apply_op lay m (OLink (PMsg f STmp K []) (PMsg f s K i)) = Some m1 ->
-     lookup m1 (PCtl g CUidl) = lookup m (PCtl g CUidl) ->
-     (forall K', K' <> K -> key_unused m K' -> key_unused m1 K') ->
-     legal_ops_b lay m1 rest = true) ->
-  legal_ops_b lay m (OLink (PMsg f STmp K []) (PMsg f s K i) :: rest) = true.
-Proof.
-  intros Hs HK Kn. cbn [legal_ops_b].
-  assert (Hb : legal_b m (OLink (PMsg f STmp K []) (PMsg f s K i)) = true).
-  { cbn [legal_b]. rewrite fname_eqb_refl, bytes_eqb_refl, Hs, (key_unused_b_complete _ _ HK).
-    reflexivity. }
-  rewrite Hb. cbn [andb].
-  destruct (apply_op lay m (OLink (PMsg f STmp K []) (PMsg f s K i))) as [m1|] eqn:A; [|reflexivity].
-  pose proof (legal_b_sound _ _ Hb) as L. apply (Kn m1 eq_refl).
-  - apply (step_uidl_same _ _ _ _ _ L A). intros n E. discriminate E.
-  - intros K' Hne HK'. apply (step_key_unused _ _ _ _ _ L A HK').
-    intros src g0 s0 i0 E. injection E as _ _ _ E _. congruence.
-Qed.
-
-Lemma install_step lay m f n u u' rest :
-  lookup m (PTmp f n) = Some (File (Text (print_uidl u'))) ->
-  lookup m (PCtl f CUidl) = Some (File (Text (print_uidl u))) ->
-  wf_uidl u = true -> wf_uidl u' = true -> uids_ok u' -> extends_b m f u u' = true ->
-  (forall m1, apply_op lay m (ORename (PTmp f n) (PCtl f CUidl)) = Some m1 ->
-     lookup m1 (PCtl f CUidl) = Some (File (Text (print_uidl u'))) ->
-     (forall K, key_unused m K -> key_unused m1 K) ->
-     legal_ops_b lay m1 rest = true) ->
-  legal_ops_b lay m (ORename (PTmp f n) (PCtl f CUidl) :: rest) = true.
-Proof.
-  intros Ht Hu Hw Hw' Hok He Kn. cbn [legal_ops_b].
-  assert (Hb : legal_b m (ORename (PTmp f n) (PCtl f CUidl)) = true).
-  { assert (Hi : install_ok m f n = true).
-    { unfold install_ok. rewrite Ht, (uidl_roundtrip _ Hw'), Hu, (uidl_roundtrip _ Hw), He.
-      rewrite andb_true_r. unfold uids_ok_b. destruct Hok as [Hnd Hlt].
-      apply andb_true_iff. split.
-      - unfold wf_uidl in Hw'. apply andb_true_iff in Hw' as [_ H]. exact H.
-      - apply forallb_forall. intros r Hr. apply N.ltb_lt. exact (Hlt r Hr). }
-    cbn [legal_b]. destruct f; rewrite ?fname_eqb_refl, Hi; reflexivity. }
-  rewrite Hb. cbn [andb].
-  destruct (apply_op lay m (ORename (PTmp f n) (PCtl f CUidl))) as [m1|] eqn:A; [|reflexivity].
-  pose proof (legal_b_sound _ _ Hb) as L. apply (Kn m1 eq_refl).
-  - destruct (apply_rename _ _ _ _ _ A) as [c [Hc Hl]]. rewrite Ht in Hc. injection Hc as <-.
-    rewrite Hl, path_eqb_refl. reflexivity.
-  - intros K HK. apply (step_key_unused _ _ _ _ _ L A HK). intros src g s i E. discriminate E.
-Qed.
-
-(* ---- well-formed names supplied with an APPEND *)
-
-Lemma value_chars_name l : forallb value_char l = true -> forallb name_char l = true.
-Proof. intro H. apply forallb_forall. intros c Hc.
-  exact (proj2 (proj2 (value_char_props c (forallb_In _ _ H c Hc)))). Qed.
-
-Lemma info_of_letters_chars l : forallb name_char (info_of_letters l) = true.
-Proof.
-  unfold info_of_letters. cbn [forallb]. apply forallb_forall. intros c Hc.
-  apply filter_In in Hc as [Hc _]. unfold sys_letters in Hc.
-  repeat (destruct Hc as [<-|Hc]; [reflexivity|]). destruct Hc.
+  split; [reflexivity|]. split; [unfold with_rec; cbn [u_next]; lia|]. split.
+  - intros uid k [r [Hr [Hu Hk]]] Hl. rewrite E in Hr.
+    apply in_app_or in Hr as [Hr|[<-|[]]]; [exists r; repeat split; assumption|].
+    cbn [r_uid] in Hu. lia.
+  - intros uid k [r [Hr [Hu Hk]]] _. exists r. split; [rewrite E; apply in_or_app; left; exact Hr|].
+    split; assumption.
 Qed.
 
 Lemma nodup_uids_snoc l r :
@@ -217,78 +343,1628 @@ Proof.
   - apply IH; [exact H2|]. intros y Hy. apply Hn. right. exact Hy.
 Qed.
 
-Lemma with_rec_wf u a :
-  wf_uidl u = true -> uids_ok u -> wf_amsg a = true ->
-  wf_uidl (with_rec u [(69, a_e a); (84, a_t a)]
-                    (a_key a ++ 58 :: info_of_letters (a_flags a))) = true.
+Lemma value_chars_name l : forallb value_char l = true -> forallb name_char l = true.
+Proof. intro H. apply forallb_forall. intros c Hc.
+  exact (proj2 (proj2 (value_char_props c (forallb_In _ _ H c Hc)))). Qed.
+
+(* adding a record with well-formed fields and a file name key:info *)
+Lemma with_rec_wf u fields key info :
+  wf_uidl u = true -> uids_ok u ->
+  forallb wf_field fields = true -> keys_sorted fields = true ->
+  wf_key key = true -> wf_info info = true ->
+  wf_uidl (with_rec u fields (key ++ 58 :: info)) = true.
 Proof.
-  intros Hw Hok Ha. pose proof (with_rec_recs u [(69, a_e a); (84, a_t a)]
-      (a_key a ++ 58 :: info_of_letters (a_flags a)) Hok) as E.
+  intros Hw Hok Hf Hs Hk Hi. pose proof (with_rec_recs u fields (key ++ 58 :: info) Hok) as E.
   unfold wf_uidl in *. rewrite E. unfold with_rec at 1 2. cbn [u_guid].
   apply andb_true_iff in Hw as [Hw Hnd]. apply andb_true_iff in Hw as [Hw Hrecs].
-  rewrite Hw. cbn [andb]. unfold wf_amsg in Ha.
-  apply andb_true_iff in Ha as [Ha Ht]. apply andb_true_iff in Ha as [Hk He].
-  apply value_chars_name in Hk.
-  apply andb_true_iff. split.
+  rewrite Hw. cbn [andb]. apply andb_true_iff. split.
   - rewrite forallb_app, Hrecs. cbn [forallb andb]. rewrite andb_true_r.
-    unfold wf_rec. cbn [r_fields r_fname forallb keys_sorted fst snd].
-    unfold wf_field. cbn [fst snd]. rewrite He, Ht.
-    change (value_char 69) with true. change (value_char 84) with true.
-    change (69 <? 84) with true. cbn [andb]. unfold wf_fname. rewrite forallb_app, Hk. cbn [forallb andb].
-    rewrite (info_of_letters_chars (a_flags a)). reflexivity.
+    unfold wf_rec. cbn [r_fields r_fname]. rewrite Hf, Hs. cbn [andb].
+    unfold wf_fname. rewrite forallb_app, (value_chars_name _ Hk). cbn [forallb andb].
+    exact Hi.
   - apply nodup_uids_snoc; [exact Hnd|]. intros x Hx. cbn [r_uid].
     destruct Hok as [_ Hlt]. specialize (Hlt x Hx). lia.
 Qed.
 
-(* ---- APPEND of any number of messages emits only legal operations *)
-Theorem append_ops_legal lay f s msgs : live s = true -> forall m u,
-  lookup m (PCtl f CUidl) = Some (File (Text (print_uidl u))) ->
-  wf_uidl u = true -> uids_ok u ->
-  (forall a, In a msgs -> key_unused m (a_key a) /\ wf_amsg a = true) ->
-  NoDup (map a_key msgs) ->
-  legal_ops_b lay m (append_ops f s u msgs) = true.
+Lemma wf_uidl_rec u r : wf_uidl u = true -> In r (u_recs u) -> wf_rec r = true.
 Proof.
-  intro Hs. induction msgs as [|a r IH]; intros m u Hu Hw Hok Hm Hnd; [reflexivity|].
-  cbn [append_ops]. unfold add_ops, locked_rewrite, rewrite_ops, lock_op, unlock_op.
-  cbn [app].
-  destruct (Hm a (or_introl eq_refl)) as [HKa Hwa].
-  inversion Hnd as [|? ? Hnot Hnd']; subst.
-  set (info := info_of_letters (a_flags a)).
-  set (u' := with_rec u [(69, a_e a); (84, a_t a)] (a_key a ++ 58 :: info)).
-  (* keys of the remaining messages, tracked through the steps *)
-  assert (Hrest : forall b, In b r -> key_unused m (a_key b) /\ a_key b <> a_key a).
-  { intros b Hb. split; [exact (proj1 (Hm b (or_intror Hb)))|].
-    intro E. apply Hnot. rewrite <- E. apply in_map. exact Hb. }
-  apply (scratch_step lay m _ _ f); [reflexivity|intros n E; discriminate E|intros x y E; discriminate E|].
-  intros m1 _ U1 K1.
-  apply (write_step lay m1 _ _ _ f); [reflexivity|]. intros m2 _ U2 K2 _.
-  apply (scratch_step lay m2 _ _ f); [reflexivity|intros n E; discriminate E|intros x y E; discriminate E|].
-  intros m3 _ U3 K3.
-  apply (link_step lay m3 f s (a_key a) info _ f Hs (K3 _ (K2 _ (K1 _ HKa)))).
-  intros m4 _ U4 K4.
-  apply (scratch_step lay m4 _ _ f); [reflexivity|intros n E; discriminate E|intros x y E; discriminate E|].
-  intros m5 _ U5 K5.
-  apply (scratch_step lay m5 _ _ f); [reflexivity|intros n E; discriminate E|intros x y E; discriminate E|].
-  intros m6 _ U6 K6.
-  apply (scratch_step lay m6 _ _ f); [reflexivity|intros n E; discriminate E|intros x y E; discriminate E|].
-  intros m7 _ U7 K7.
-  apply (write_step lay m7 _ _ _ f); [reflexivity|]. intros m8 _ U8 K8 T8.
-  assert (Hu8 : lookup m8 (PCtl f CUidl) = Some (File (Text (print_uidl u)))).
-  { rewrite U8, U7, U6, U5, U4, U3, U2, U1. exact Hu. }
-  apply (install_step lay m8 f (a_tmp a) u u' _ T8 Hu8 Hw (with_rec_wf u a Hw Hok Hwa)
-           (with_rec_uids_ok _ _ _ Hok) (with_rec_extends_b _ _ _ _ _ Hok)).
-  intros m9 _ U9 K9.
-  apply (scratch_step lay m9 _ _ f); [reflexivity|intros n E; discriminate E|intros x y E; discriminate E|].
-  intros m10 _ U10 K10.
-  apply IH.
-  - rewrite U10. exact U9.
-  - exact (with_rec_wf u a Hw Hok Hwa).
-  - exact (with_rec_uids_ok _ _ _ Hok).
-  - intros b Hb. destruct (Hrest b Hb) as [HKb Hne]. split; [|exact (proj2 (Hm b (or_intror Hb)))].
-    apply K10, K9, K8, K7, K6, K5, (K4 _ Hne), K3, K2, K1. exact HKb.
-  - exact Hnd'.
+  unfold wf_uidl. intros H Hr. apply andb_true_iff in H as [H _]. apply andb_true_iff in H as [_ H].
+  exact (forallb_In _ _ H r Hr).
 Qed.
 
+Lemma info_of_letters_chars l : wf_info (info_of_letters l) = true.
+Proof.
+  unfold wf_info, info_of_letters. cbn [forallb]. apply forallb_forall. intros c Hc.
+  apply filter_In in Hc as [Hc _]. unfold sys_letters in Hc.
+  repeat (destruct Hc as [<-|Hc]; [reflexivity|]). destruct Hc.
+Qed.
+
+(* ------------------------------------------- tracking facts through blocks *)
+Lemma view_add_key_unused m m1 f s K i n K' :
+  view_add m m1 (PMsg f s K i) n -> K' <> K -> key_unused m K' -> key_unused m1 K'.
+Proof.
+  intros V Hne H g t j Ht. rewrite (V _ (live_not_junk g t K' j Ht)).
+  destruct (path_eqb (PMsg f s K i) (PMsg g t K' j)) eqn:E; [|exact (H g t j Ht)].
+  apply path_eqb_eq in E. inversion E; subst. contradiction.
+Qed.
+
+Lemma view_add_uidl m m1 f s K i n g :
+  view_add m m1 (PMsg f s K i) n -> lookup m1 (PCtl g CUidl) = lookup m (PCtl g CUidl).
+Proof. intro V. rewrite (V (PCtl g CUidl) eq_refl). reflexivity. Qed.
+
+Lemma view_uidl_key_unused m m1 f u K : view_uidl m m1 f u -> key_unused m K -> key_unused m1 K.
+Proof. intros V H g t j Ht. rewrite (V _ (live_not_junk g t K j Ht)). exact (H g t j Ht). Qed.
+
+Lemma view_uidl_other m m1 f u g : g <> f ->
+  view_uidl m m1 f u -> lookup m1 (PCtl g CUidl) = lookup m (PCtl g CUidl).
+Proof.
+  intros Hne V. rewrite (V (PCtl g CUidl) eq_refl).
+  destruct (path_eqb (PCtl f CUidl) (PCtl g CUidl)) eqn:E; [|reflexivity].
+  apply path_eqb_eq in E. inversion E; subst. contradiction.
+Qed.
+
+Lemma view_uidl_at_new m m1 f u : view_uidl m m1 f u -> wf_uidl u = true -> uidl_at m1 f u.
+Proof. intros V Hw. apply uidl_at_text; [|exact Hw]. rewrite (V (PCtl f CUidl) eq_refl),
+  path_eqb_refl. reflexivity. Qed.
+
+Lemma uidl_at_lookup_eq m m1 f u :
+  lookup m1 (PCtl f CUidl) = lookup m (PCtl f CUidl) -> uidl_at m f u -> uidl_at m1 f u.
+Proof. intros E [t [H1 H2]]. exists t. rewrite E. split; assumption. Qed.
+
+(* --------------------------------- operations legal whatever the state *)
+Definition static (lay : layout) (o : fsop) : bool :=
+  match o with
+  | OLink _ _ | ORenameDir _ _ => false
+  | ORename (PTmp _ _) (PCtl _ CUidl) => false
+  | _ => legal_b lay [] o
+  end.
+
+Lemma static_legal_b lay m o : static lay o = true -> legal_b lay m o = true.
+Proof.
+  destruct o as [p|p|p|p c|p q|a b|p q|p|p]; cbn [static]; intro H; try discriminate;
+    try exact H.
+  destruct p as [| |f s k i|f c|f n]; try exact H.
+  destruct q as [| | |g c|]; try exact H.
+  destruct c; try exact H; discriminate.
+Qed.
+
+Lemma static_ops_k lay l : forallb (static lay) l = true -> forall m rest,
+  Inv m -> (forall m1, Inv m1 -> legal_ops_b lay m1 rest = true) ->
+  legal_ops_b lay m (l ++ rest) = true.
+Proof.
+  induction l as [|o l IH]; intros Hs m rest I K; cbn [app]; [exact (K m I)|].
+  cbn [forallb] in Hs. apply andb_true_iff in Hs as [Ho Hl].
+  apply step_k; [exact I|exact (static_legal_b lay m o Ho)|]. intros m1 _ _ I1.
+  exact (IH Hl m1 rest I1 K).
+Qed.
+
+Lemma static_ops_legal lay l m :
+  forallb (static lay) l = true -> Inv m -> legal_ops_b lay m l = true.
+Proof. intros H I. rewrite <- (app_nil_r l). apply static_ops_k; [exact H|exact I|reflexivity]. Qed.
+
+Lemma scratch_static lay o : scratch o = true -> static lay o = true.
+Proof.
+  destruct o; cbn [scratch static]; intro H; try discriminate; cbn [legal_b]; try reflexivity.
+  - rewrite H. reflexivity.
+  - exact H.
+  - rewrite H. reflexivity.
+Qed.
+
+Lemma reset_ops_scratch f : forallb scratch (reset_ops f) = true.
+Proof. reflexivity. Qed.
+
+Lemma tail_ops_static lay sel used : forallb (static lay) (tail_ops sel used) = true.
+Proof.
+  unfold tail_ops. destruct sel as [[s ro]|]; [|reflexivity].
+  destruct used as [f|]; [destruct (fname_eqb f s)|]; reflexivity.
+Qed.
+
+(* ---------------------------------------------------------------- APPEND *)
+Lemma append_core lay f s rest : live s = true -> forall msgs m u,
+  Inv m -> uidl_at m f u ->
+  (forall a, In a msgs -> key_unused m (a_key a) /\ wf_amsg a = true) ->
+  NoDup (map a_key msgs) ->
+  (forall m1, Inv m1 -> legal_ops_b lay m1 rest = true) ->
+  legal_ops_b lay m (append_ops f s u msgs ++ rest) = true.
+Proof.
+  intro Hs. induction msgs as [|a r IH]; intros m u I Hu Hm Hnd K; cbn [append_ops app].
+  - exact (K m I).
+  - destruct (inv_uidl_text _ _ _ I Hu) as [_ [Hw Hok]].
+    destruct (Hm a (or_introl eq_refl)) as [HKa Hwa].
+    inversion Hnd as [|? ? Hnot Hnd']; subst.
+    unfold wf_amsg in Hwa. apply andb_true_iff in Hwa as [Hwa Hwt].
+    apply andb_true_iff in Hwa as [Hwk Hwe].
+    set (info := info_of_letters (a_flags a)).
+    set (u' := with_rec u [(69, a_e a); (84, a_t a)] (a_key a ++ 58 :: info)).
+    rewrite <- !app_assoc.
+    apply add_k; [exact I|exact Hs|exact HKa|exact Hwk|exact (info_of_letters_chars _)|].
+    intros m1 I1 V1.
+    assert (Hu1 : uidl_at m1 f u)
+      by exact (uidl_at_lookup_eq _ _ _ _ (view_add_uidl _ _ _ _ _ _ _ f V1) Hu).
+    assert (Hw' : wf_uidl u' = true).
+    { apply with_rec_wf; try assumption; [|reflexivity|exact (info_of_letters_chars _)].
+      cbn [forallb]. unfold wf_field. cbn [fst snd]. rewrite Hwe, Hwt. reflexivity. }
+    apply rewrite_k; [exact I1|exact Hw'|exact (with_rec_uids_ok _ _ _ Hok)| |].
+    { intros u0 Hu0. rewrite <- (uidl_at_fun _ _ _ _ Hu1 Hu0). exact (with_rec_extends _ _ _ _ Hok). }
+    intros m2 I2 V2.
+    apply (IH m2 u' I2 (view_uidl_at_new _ _ _ _ V2 Hw')); [|exact Hnd'|exact K].
+    intros b Hb. destruct (Hm b (or_intror Hb)) as [HKb Hwb]. split; [|exact Hwb].
+    apply (view_uidl_key_unused _ _ _ _ _ V2).
+    apply (view_add_key_unused _ _ _ _ _ _ _ _ V1); [|exact HKb].
+    intro E. apply Hnot. rewrite <- E. apply in_map. exact Hb.
+Qed.
+
+(* ------------------------------------------------- more uid-list facts *)
+Lemma with_rec_wf_fn u fields fn :
+  wf_uidl u = true -> uids_ok u ->
+  forallb wf_field fields = true -> keys_sorted fields = true -> wf_fname fn = true ->
+  wf_uidl (with_rec u fields fn) = true.
+Proof.
+  intros Hw Hok Hf Hs Hn. pose proof (with_rec_recs u fields fn Hok) as E.
+  unfold wf_uidl in *. rewrite E. unfold with_rec at 1 2. cbn [u_guid].
+  apply andb_true_iff in Hw as [Hw Hnd]. apply andb_true_iff in Hw as [Hw Hrecs].
+  rewrite Hw. cbn [andb]. apply andb_true_iff. split.
+  - rewrite forallb_app, Hrecs. cbn [forallb andb]. rewrite andb_true_r.
+    unfold wf_rec. cbn [r_fields r_fname]. rewrite Hf, Hs, Hn. reflexivity.
+  - apply nodup_uids_snoc; [exact Hnd|]. intros x Hx. cbn [r_uid].
+    destruct Hok as [_ Hlt]. specialize (Hlt x Hx). lia.
+Qed.
+
+Lemma wf_fname_key_info key info :
+  wf_key key = true -> wf_info info = true -> wf_fname (key ++ 58 :: info) = true.
+Proof. intros Hk Hi. unfold wf_fname. rewrite forallb_app, (value_chars_name _ Hk).
+  cbn [forallb andb]. exact Hi. Qed.
+
+Lemma wf_fname_of_file x :
+  wf_key (m_key x) = true -> wf_info (m_info x) = true -> wf_fname (fname_of_file x) = true.
+Proof.
+  intros Hk Hi. unfold fname_of_file. destruct (m_info x) as [|c i] eqn:E.
+  - exact (value_chars_name _ Hk).
+  - exact (wf_fname_key_info _ _ Hk Hi).
+Qed.
+
+Lemma wf_rec_fields r : wf_rec r = true ->
+  forallb wf_field (r_fields r) = true /\ keys_sorted (r_fields r) = true
+  /\ wf_fname (r_fname r) = true.
+Proof. unfold wf_rec. intro H. apply andb_true_iff in H as [H H3].
+  apply andb_true_iff in H as [H1 H2]. repeat split; assumption. Qed.
+
+Lemma nodup_uids_filter p l : nodup_uids l = true -> nodup_uids (filter p l) = true.
+Proof.
+  induction l as [|r l IH]; cbn [nodup_uids filter]; intro H; [reflexivity|].
+  apply andb_true_iff in H as [H1 H2]. destruct (p r); [|exact (IH H2)].
+  cbn [nodup_uids]. rewrite (IH H2), andb_true_r. apply negb_true_iff. apply negb_true_iff in H1.
+  destruct (existsb (fun x => r_uid x =? r_uid r) (filter p l)) eqn:E; [|reflexivity].
+  apply existsb_exists in E as [x [Hx Ex]]. apply filter_In in Hx as [Hx _].
+  assert (existsb (fun x => r_uid x =? r_uid r) l = true)
+    by (apply existsb_exists; exists x; split; assumption).
+  congruence.
+Qed.
+
+Lemma without_rec_wf u uid : wf_uidl u = true -> wf_uidl (without_rec u uid) = true.
+Proof.
+  unfold wf_uidl, without_rec. cbn [u_guid u_recs]. intro H.
+  apply andb_true_iff in H as [H Hnd]. apply andb_true_iff in H as [H Hrecs].
+  rewrite H. cbn [andb]. apply andb_true_iff. split.
+  - apply forallb_forall. intros r Hr. apply filter_In in Hr as [Hr _].
+    exact (forallb_In _ _ Hrecs r Hr).
+  - exact (nodup_uids_filter _ _ Hnd).
+Qed.
+
+Lemma nodup_map_filter {A B} (g : A -> B) p (l : list A) :
+  NoDup (map g l) -> NoDup (map g (filter p l)).
+Proof.
+  induction l as [|x l IH]; cbn [map filter]; intro H; [constructor|].
+  inversion H as [|? ? Hx Hl]; subst. destruct (p x); [|exact (IH Hl)].
+  cbn [map]. constructor; [|exact (IH Hl)]. intro Hin. apply Hx.
+  apply in_map_iff in Hin as [y [Hy Hin]]. apply filter_In in Hin as [Hin _].
+  apply in_map_iff. exists y. split; assumption.
+Qed.
+
+Lemma without_rec_uids_ok u uid : uids_ok u -> uids_ok (without_rec u uid).
+Proof.
+  intros [Hnd Hlt]. split; unfold without_rec; cbn [u_recs u_next].
+  - exact (nodup_map_filter _ _ _ Hnd).
+  - intros r Hr. apply filter_In in Hr as [Hr _]. exact (Hlt r Hr).
+Qed.
+
+Lemma recorded_fun u uid k k' : uids_ok u -> recorded u uid k -> recorded u uid k' -> k = k'.
+Proof. intros [Hnd _]. exact (recorded_same_uid _ _ _ _ Hnd). Qed.
+
+Lemma without_rec_extends (P : bytes -> Prop) u uid :
+  uids_ok u -> (forall k, recorded u uid k -> ~ P k) -> extends P u (without_rec u uid).
+Proof.
+  intros Hok Hno. split; [reflexivity|]. split; [apply N.le_refl|]. split.
+  - intros uid0 k [r [Hr [Hu Hk]]] _. unfold without_rec in Hr. cbn [u_recs] in Hr.
+    apply filter_In in Hr as [Hr _]. exists r. repeat split; assumption.
+  - intros uid0 k Hrec HP. destruct (N.eqb_spec uid0 uid) as [->|Hne].
+    + exfalso. exact (Hno k Hrec HP).
+    + destruct Hrec as [r [Hr [Hu Hk]]]. exists r. split; [|split; assumption].
+      unfold without_rec. cbn [u_recs]. apply filter_In. split; [exact Hr|].
+      rewrite Hu. apply negb_true_iff. apply N.eqb_neq. exact Hne.
+Qed.
+
+(* the key of a record: the file name up to its first colon *)
+Lemma before_colon_nocolon b c : In c (before_colon b) -> c <> 58.
+Proof.
+  induction b as [|d b IH]; cbn [before_colon]; [intros []|].
+  destruct (N.eqb_spec d 58) as [->|Hn]; [intros []|]. intros [<-|H]; [exact Hn|exact (IH H)].
+Qed.
+
+Lemma before_colon_app k x : (forall c, In c k -> c <> 58) -> before_colon (k ++ 58 :: x) = k.
+Proof.
+  induction k as [|c k IH]; intro H; [reflexivity|]. cbn [app before_colon].
+  destruct (N.eqb_spec c 58) as [E|_]; [exfalso; exact (H c (or_introl eq_refl) E)|].
+  rewrite IH; [reflexivity|]. intros d Hd. apply H. right. exact Hd.
+Qed.
+
+Lemma before_colon_incl b c : In c (before_colon b) -> In c b.
+Proof.
+  induction b as [|d b IH]; cbn [before_colon]; [intros []|].
+  destruct (d =? 58); [intros []|]. intros [<-|H]; [left; reflexivity|right; exact (IH H)].
+Qed.
+
+Lemma wf_key_before_colon k x : wf_key k = true -> before_colon (k ++ 58 :: x) = k.
+Proof. intro H. apply before_colon_app. intros c Hc.
+  exact (proj1 (proj2 (value_char_props c (forallb_In _ _ H c Hc)))). Qed.
+
+(* CHECK: the cleaned list *)
+Lemma cleanup_recs_in u fl r' : In r' (u_recs (cleanup_uidl u fl)) ->
+  exists r x, In r (u_recs u) /\ find_file fl (r_key r) = Some x
+              /\ r' = {| r_uid := r_uid r; r_fields := r_fields r;
+                         r_fname := r_key r ++ 58 :: m_info x |}.
+Proof.
+  unfold cleanup_uidl. cbn [u_recs]. intro H. apply in_flat_map in H as [r [Hr H]].
+  destruct (find_file fl (r_key r)) as [x|] eqn:E; [|destruct H].
+  destruct H as [<-|[]]. exists r, x. repeat split; assumption.
+Qed.
+
+Lemma cleanup_key r x : r_key {| r_uid := r_uid r; r_fields := r_fields r;
+                                 r_fname := r_key r ++ 58 :: m_info x |} = r_key r.
+Proof. unfold r_key at 1. cbn [r_fname]. apply before_colon_app.
+  intros c Hc. exact (before_colon_nocolon _ _ Hc). Qed.
+
+Lemma cleanup_uids_ok u fl : uids_ok u -> uids_ok (cleanup_uidl u fl).
+Proof.
+  intros [Hnd Hlt]. split.
+  - unfold cleanup_uidl. cbn [u_recs]. clear Hlt.
+    induction (u_recs u) as [|r l IH]; cbn [flat_map map]; [constructor|].
+    inversion Hnd as [|? ? Hr Hl]; subst.
+    destruct (find_file fl (r_key r)); cbn [app map]; [|exact (IH Hl)].
+    constructor; [|exact (IH Hl)]. cbn [r_uid]. intro Hin. apply Hr.
+    apply in_map_iff in Hin as [y [Hy Hin]]. apply in_flat_map in Hin as [z [Hz Hin]].
+    destruct (find_file fl (r_key z)); [|destruct Hin]. destruct Hin as [<-|[]].
+    cbn [r_uid] in Hy. apply in_map_iff. exists z. split; assumption.
+  - intros r' Hr'. destruct (cleanup_recs_in _ _ _ Hr') as [r [x [Hr [_ ->]]]].
+    cbn [r_uid]. exact (Hlt r Hr).
+Qed.
+
+Lemma cleanup_wf u fl :
+  wf_uidl u = true -> (forall x, In x fl -> wf_info (m_info x) = true) ->
+  wf_uidl (cleanup_uidl u fl) = true.
+Proof.
+  intros Hw Hfl. unfold wf_uidl in *.
+  apply andb_true_iff in Hw as [Hw Hnd]. apply andb_true_iff in Hw as [Hg Hrecs].
+  unfold cleanup_uidl at 1 2. cbn [u_guid]. rewrite Hg. cbn [andb]. apply andb_true_iff. split.
+  - apply forallb_forall. intros r' Hr'.
+    destruct (cleanup_recs_in _ _ _ Hr') as [r [x [Hr [Hx ->]]]].
+    destruct (wf_rec_fields _ (forallb_In _ _ Hrecs r Hr)) as [Hf [Hs Hn]].
+    unfold wf_rec. cbn [r_fields r_fname]. rewrite Hf, Hs. cbn [andb].
+    unfold wf_fname in *. rewrite forallb_app. apply andb_true_iff. split.
+    + apply forallb_forall. intros c Hc. apply (forallb_In _ _ Hn).
+      exact (before_colon_incl _ _ Hc).
+    + cbn [forallb andb]. apply Hfl. exact (proj1 (find_file_some _ _ _ Hx)).
+  - unfold cleanup_uidl. cbn [u_recs]. clear Hrecs Hg.
+    induction (u_recs u) as [|r l IH]; cbn [flat_map nodup_uids]; [reflexivity|].
+    cbn [nodup_uids] in Hnd. apply andb_true_iff in Hnd as [H1 H2].
+    destruct (find_file fl (r_key r)); cbn [app]; [|exact (IH H2)].
+    cbn [nodup_uids r_uid]. rewrite (IH H2), andb_true_r. apply negb_true_iff.
+    apply negb_true_iff in H1.
+    destruct (existsb _ (flat_map _ l)) eqn:E; [|reflexivity].
+    apply existsb_exists in E as [y [Hy Ey]]. apply in_flat_map in Hy as [z [Hz Hy]].
+    destruct (find_file fl (r_key z)); [|destruct Hy]. destruct Hy as [<-|[]]. cbn [r_uid] in Ey.
+    assert (existsb (fun x => r_uid x =? r_uid r) l = true)
+      by (apply existsb_exists; exists z; split; assumption).
+    congruence.
+Qed.
+
+Lemma cleanup_extends m f u :
+  Inv m -> uids_ok u -> extends (has_file m f) u (cleanup_uidl u (files_of m f)).
+Proof.
+  intros I Hok. split; [reflexivity|]. split; [apply N.le_refl|]. split.
+  - intros uid k [r' [Hr' [Hu Hk]]] _.
+    destruct (cleanup_recs_in _ _ _ Hr') as [r [x [Hr [_ ->]]]].
+    rewrite cleanup_key in Hk. cbn [r_uid] in Hu. exists r. repeat split; assumption.
+  - intros uid k [r [Hr [Hu Hk]]] Hf.
+    destruct (find_file (files_of m f) (r_key r)) as [x|] eqn:E.
+    + exists {| r_uid := r_uid r; r_fields := r_fields r; r_fname := r_key r ++ 58 :: m_info x |}.
+      split; [|split; [exact Hu|rewrite cleanup_key; exact Hk]].
+      unfold cleanup_uidl. cbn [u_recs]. apply in_flat_map. exists r. split; [exact Hr|].
+      rewrite E. left. reflexivity.
+    + exfalso. rewrite <- Hk in Hf. exact (has_file_find _ _ _ I Hf E).
+Qed.
+
+(* the files found at the start of a command *)
+Definition files_ok (fls : list mfile) : Prop :=
+  forall x, In x fls -> live (m_sub x) = true /\ wf_key (m_key x) = true
+                        /\ wf_info (m_info x) = true.
+
+Lemma files_of_ok m f : Inv m -> files_ok (files_of m f).
+Proof. intros I x Hx. destruct (files_of_lookup _ _ _ I Hx) as [_ [H1 [H2 H3]]].
+  repeat split; assumption. Qed.
+
+(* ------------------------------------------------------------------ COPY *)
+Lemma copy_core lay g s us fls rest : live s = true -> wf_uidl us = true -> files_ok fls ->
+  forall uids names m ug,
+  Inv m -> uidl_at m g ug ->
+  (forall kn, In kn names -> key_unused m (fst kn) /\ wf_key (fst kn) = true) ->
+  NoDup (map fst names) ->
+  (forall m1, Inv m1 -> legal_ops_b lay m1 rest = true) ->
+  legal_ops_b lay m (copy_ops g s us fls ug uids names ++ rest) = true.
+Proof.
+  intros Hs Hwus Hfls. induction uids as [|uid r IH]; intros names m ug I Hu Hn Hnd K;
+    cbn [copy_ops app]; [exact (K m I)|].
+  destruct (locate us fls uid) as [[rec x]|] eqn:El; [|exact (IH names m ug I Hu Hn Hnd K)].
+  destruct names as [|[key tmp] names']; [exact (K m I)|].
+  destruct (locate_spec _ _ _ _ _ El) as [Hrec [_ [Hx _]]].
+  destruct (Hfls x Hx) as [_ [_ Hwi]].
+  destruct (wf_rec_fields _ (wf_uidl_rec _ _ Hwus Hrec)) as [Hf [Hsf _]].
+  destruct (inv_uidl_text _ _ _ I Hu) as [_ [Hw Hok]].
+  destruct (Hn (key, tmp) (or_introl eq_refl)) as [HK Hwk]. cbn [fst] in HK, Hwk.
+  inversion Hnd as [|? ? Hnot Hnd']; subst.
+  set (ug' := with_rec ug (r_fields rec) (key ++ 58 :: m_info x)).
+  rewrite <- !app_assoc.
+  apply add_k; [exact I|exact Hs|exact HK|exact Hwk|exact Hwi|]. intros m1 I1 V1.
+  assert (Hu1 : uidl_at m1 g ug)
+    by exact (uidl_at_lookup_eq _ _ _ _ (view_add_uidl _ _ _ _ _ _ _ g V1) Hu).
+  assert (Hw' : wf_uidl ug' = true) by (apply with_rec_wf; assumption).
+  apply rewrite_k; [exact I1|exact Hw'|exact (with_rec_uids_ok _ _ _ Hok)| |].
+  { intros u0 Hu0. rewrite <- (uidl_at_fun _ _ _ _ Hu1 Hu0). exact (with_rec_extends _ _ _ _ Hok). }
+  intros m2 I2 V2.
+  apply (IH names' m2 ug' I2 (view_uidl_at_new _ _ _ _ V2 Hw')); [|exact Hnd'|exact K].
+  intros kn Hkn. destruct (Hn kn (or_intror Hkn)) as [HKb Hwb]. split; [|exact Hwb].
+  apply (view_uidl_key_unused _ _ _ _ _ V2).
+  apply (view_add_key_unused _ _ _ _ _ _ _ _ V1); [|exact HKb].
+  intro E. apply Hnot. cbn [fst]. rewrite <- E. apply in_map. exact Hkn.
+Qed.
+
+(* -------------------------------------- MOVE into the mailbox itself *)
+Lemma unlink_live_static lay f s k i : live s = true ->
+  static lay (OUnlink (PMsg f s k i)) = true.
+Proof. intro H. cbn [static legal_b junk]. rewrite H. reflexivity. Qed.
+
+Lemma self_move_core lay f s fls rest : live s = true -> files_ok fls ->
+  forall uids names m u,
+  Inv m -> uidl_at m f u ->
+  (forall k, In k (evens names) -> key_unused m k /\ wf_key k = true) ->
+  NoDup (evens names) ->
+  (forall m1, Inv m1 -> legal_ops_b lay m1 rest = true) ->
+  legal_ops_b lay m (self_move_ops f s u fls uids names ++ rest) = true.
+Proof.
+  intros Hs Hfls. induction uids as [|uid r IH]; intros names m u I Hu Hn Hnd K;
+    cbn [self_move_ops app]; [exact (K m I)|].
+  destruct (locate u fls uid) as [[rec x]|] eqn:El; [|exact (IH names m u I Hu Hn Hnd K)].
+  destruct names as [|key [|tmp names']]; [exact (K m I)|exact (K m I)|].
+  destruct (locate_spec _ _ _ _ _ El) as [Hrec [_ [Hx _]]].
+  destruct (Hfls x Hx) as [Hlx [_ Hwi]].
+  destruct (inv_uidl_text _ _ _ I Hu) as [_ [Hw Hok]].
+  destruct (wf_rec_fields _ (wf_uidl_rec _ _ Hw Hrec)) as [Hf [Hsf _]].
+  cbn [evens] in Hn, Hnd.
+  destruct (Hn key (or_introl eq_refl)) as [HK Hwk].
+  inversion Hnd as [|? ? Hnot Hnd']; subst.
+  set (u' := with_rec u (r_fields rec) (key ++ 58 :: m_info x)).
+  rewrite <- !app_assoc.
+  apply add_k; [exact I|exact Hs|exact HK|exact Hwk|exact Hwi|]. intros m1 I1 V1.
+  assert (Hu1 : uidl_at m1 f u)
+    by exact (uidl_at_lookup_eq _ _ _ _ (view_add_uidl _ _ _ _ _ _ _ f V1) Hu).
+  assert (Hw' : wf_uidl u' = true) by (apply with_rec_wf; assumption).
+  apply rewrite_k; [exact I1|exact Hw'|exact (with_rec_uids_ok _ _ _ Hok)| |].
+  { intros u0 Hu0. rewrite <- (uidl_at_fun _ _ _ _ Hu1 Hu0). exact (with_rec_extends _ _ _ _ Hok). }
+  intros m2 I2 V2. cbn [app].
+  apply step_k; [exact I2|exact (static_legal_b _ _ _ (unlink_live_static lay f _ _ _ Hlx))|].
+  intros m3 A3 _ I3.
+  assert (Hu3 : uidl_at m3 f u').
+  { apply (uidl_at_lookup_eq m2 m3); [|exact (view_uidl_at_new _ _ _ _ V2 Hw')].
+    apply (apply_op_frame _ _ _ _ _ A3). cbn. intro E. discriminate E. }
+  apply (IH names' m3 u' I3 Hu3); [|exact Hnd'|exact K].
+  intros k Hk. destruct (Hn k (or_intror Hk)) as [HKb Hwb]. split; [|exact Hwb].
+  intros g t j Ht. rewrite (apply_unlink _ _ _ _ A3).
+  destruct (path_eqb (PMsg f (m_sub x) (m_key x) (m_info x)) (PMsg g t k j)); [reflexivity|].
+  apply (view_uidl_key_unused _ _ _ _ _ V2); [|exact Ht].
+  apply (view_add_key_unused _ _ _ _ _ _ _ _ V1); [|exact HKb].
+  intro E. apply Hnot. rewrite <- E. exact Hk.
+Qed.
+
+(* ------------------------------------------------------------------ MOVE *)
+Lemma move_rename_legal lay m f g s s' k i : live s = true -> live s' = true ->
+  legal_b lay m (ORename (PMsg f s k i) (PMsg g s' k i)) = true.
+Proof. intros H1 H2. cbn [legal_b]. rewrite H1, H2, !bytes_eqb_refl, orb_true_r. reflexivity. Qed.
+
+Lemma move_core lay f g s fls rest : live s = true -> f <> g -> files_ok fls ->
+  forall uids tmps m us ug,
+  Inv m -> uidl_at m f us -> uidl_at m g ug ->
+  (forall m1, Inv m1 -> legal_ops_b lay m1 rest = true) ->
+  legal_ops_b lay m (move_ops f g s us fls ug uids tmps ++ rest) = true.
+Proof.
+  intros Hs Hfg Hfls. induction uids as [|uid r IH]; intros tmps m us ug I Hus Hug K;
+    cbn [move_ops app]; [exact (K m I)|].
+  destruct (locate us fls uid) as [[rec x]|] eqn:El; [|exact (IH tmps m us ug I Hus Hug K)].
+  destruct tmps as [|tmp1 [|tmp2 tmps']]; [exact (K m I)|exact (K m I)|].
+  destruct (locate_spec _ _ _ _ _ El) as [Hrec [Huid [Hx Hkx]]].
+  destruct (Hfls x Hx) as [Hlx [Hwk Hwi]].
+  destruct (inv_uidl_text _ _ _ I Hus) as [_ [Hws Hoks]].
+  destruct (inv_uidl_text _ _ _ I Hug) as [_ [Hwg Hokg]].
+  destruct (wf_rec_fields _ (wf_uidl_rec _ _ Hws Hrec)) as [Hf [Hsf _]].
+  cbn [app]. rewrite <- !app_assoc.
+  apply step_k; [exact I|exact (move_rename_legal lay m f g _ s _ _ Hlx Hs)|].
+  intros m1 A1 _ I1.
+  destruct (apply_rename _ _ _ _ _ A1) as [c [Hsrc Hl1]].
+  assert (U1 : forall h, lookup m1 (PCtl h CUidl) = lookup m (PCtl h CUidl)).
+  { intro h. rewrite Hl1. reflexivity. }
+  (* the moved file is no longer in the source folder *)
+  assert (Hgone : ~ has_file m1 f (m_key x)).
+  { intros [i [c0 [t [Ht Hl]]]]. rewrite Hl1 in Hl.
+    destruct (path_eqb (PMsg g s (m_key x) (m_info x)) (PMsg f t (m_key x) i)) eqn:E1.
+    { apply path_eqb_eq in E1. inversion E1; subst. exact (Hfg eq_refl). }
+    destruct (path_eqb (PMsg f (m_sub x) (m_key x) (m_info x)) (PMsg f t (m_key x) i)) eqn:E2;
+      [discriminate|].
+    destruct I as [_ I2 _ _].
+    destruct (I2 _ _ _ _ _ _ _ _ _ Hlx Ht Hsrc Hl) as [_ [E3 E4]].
+    rewrite E3, E4, path_eqb_refl in E2. discriminate. }
+  set (us' := without_rec us uid).
+  set (ug' := with_rec ug (r_fields rec) (fname_of_file x)).
+  apply rewrite_k; [exact I1|exact (without_rec_wf _ _ Hws)|exact (without_rec_uids_ok _ _ Hoks)| |].
+  { intros u0 Hu0.
+    rewrite <- (uidl_at_fun _ _ _ _ (uidl_at_lookup_eq _ _ _ _ (U1 f) Hus) Hu0).
+    apply without_rec_extends; [exact Hoks|]. intros k Hk Hf'.
+    assert (k = m_key x).
+    { rewrite Hkx. apply (recorded_fun _ _ _ _ Hoks Hk). exists rec. repeat split; assumption. }
+    subst k. exact (Hgone Hf'). }
+  intros m2 I2 V2.
+  assert (Hug2 : uidl_at m2 g ug).
+  { apply (uidl_at_lookup_eq m1 m2); [exact (view_uidl_other _ _ _ _ _ (not_eq_sym Hfg) V2)|].
+    exact (uidl_at_lookup_eq _ _ _ _ (U1 g) Hug). }
+  assert (Hwg' : wf_uidl ug' = true).
+  { apply with_rec_wf_fn; try assumption. exact (wf_fname_of_file _ Hwk Hwi). }
+  apply rewrite_k; [exact I2|exact Hwg'|exact (with_rec_uids_ok _ _ _ Hokg)| |].
+  { intros u0 Hu0. rewrite <- (uidl_at_fun _ _ _ _ Hug2 Hu0).
+    exact (with_rec_extends _ _ _ _ Hokg). }
+  intros m3 I3 V3.
+  apply (IH tmps' m3 us' ug' I3); [|exact (view_uidl_at_new _ _ _ _ V3 Hwg')|exact K].
+  apply (uidl_at_lookup_eq m2 m3); [exact (view_uidl_other _ _ _ _ _ Hfg V3)|].
+  exact (view_uidl_at_new _ _ _ _ V2 (without_rec_wf _ _ Hws)).
+Qed.
+
+(* ------------------------------------------------------- static lists *)
+Lemma flags_rename_static lay f s s' k i i' : live s = true -> live s' = true ->
+  wf_info i' = true -> static lay (ORename (PMsg f s k i) (PMsg f s' k i')) = true.
+Proof. intros H1 H2 H3. cbn [static legal_b]. rewrite H1, H2, bytes_eqb_refl, fname_eqb_refl, H3.
+  reflexivity. Qed.
+
+Lemma wf_info_new_info mode fl info : wf_info (new_info mode fl info) = true.
+Proof. unfold new_info. apply info_of_letters_chars. Qed.
+
+Lemma store_ops_static lay f u fl mode letters uids : files_ok fl ->
+  forallb (static lay) (store_ops f u fl mode letters uids) = true.
+Proof.
+  intro Hfl. unfold store_ops. apply forallb_forall. intros o Ho.
+  apply in_flat_map in Ho as [uid [_ Ho]].
+  destruct (locate u fl uid) as [[rec x]|] eqn:El; [|destruct Ho].
+  destruct (bytes_eqb (new_info mode letters (m_info x)) (m_info x)); [destruct Ho|].
+  destruct Ho as [<-|[]]. destruct (locate_spec _ _ _ _ _ El) as [_ [_ [Hx _]]].
+  destruct (Hfl x Hx) as [Hl _].
+  exact (flags_rename_static lay f _ _ _ _ _ Hl Hl (wf_info_new_info _ _ _)).
+Qed.
+
+Lemma expunge_ops_static lay f u fl : files_ok fl ->
+  forallb (static lay) (expunge_ops f u fl) = true.
+Proof.
+  intro Hfl. unfold expunge_ops. apply forallb_forall. intros o Ho.
+  apply in_flat_map in Ho as [r [_ Ho]].
+  destruct (find_file fl (r_key r)) as [x|] eqn:Ex; [|destruct Ho].
+  destruct (mem_n 84 (flags_of_info (m_info x))); [|destruct Ho].
+  destruct Ho as [<-|[]]. destruct (Hfl x (proj1 (find_file_some _ _ _ Ex))) as [Hl _].
+  exact (unlink_live_static lay f _ _ _ Hl).
+Qed.
+
+Lemma claim_ops_static lay f news order :
+  (forall x, In x news -> wf_info (m_info x) = true) ->
+  forallb (static lay)
+    (flat_map (fun k => match find_file news k with
+                        | Some x => [ORename (PMsg f SNew k (m_info x)) (PMsg f SCur k (m_info x))]
+                        | None => []
+                        end) order) = true.
+Proof.
+  intro Hn. apply forallb_forall. intros o Ho. apply in_flat_map in Ho as [k [_ Ho]].
+  destruct (find_file news k) as [x|] eqn:Ex; [|destruct Ho]. destruct Ho as [<-|[]].
+  apply flags_rename_static; try reflexivity. apply Hn. exact (proj1 (find_file_some _ _ _ Ex)).
+Qed.
+
+Lemma forallb_app_true {A} (p : A -> bool) l1 l2 :
+  forallb p l1 = true -> forallb p l2 = true -> forallb p (l1 ++ l2) = true.
+Proof. intros H1 H2. rewrite forallb_app, H1, H2. reflexivity. Qed.
+
+Lemma scratch_list_static lay l : forallb scratch l = true -> forallb (static lay) l = true.
+Proof. intro H. apply forallb_forall. intros o Ho. apply scratch_static.
+  exact (forallb_In _ _ H o Ho). Qed.
+
+(* ----------------------------------------------------------------- CHECK *)
+Lemma check_core lay m0 m f tmp u rest :
+  Inv m0 -> Inv m -> same_view m0 m -> uidl_at m f u ->
+  (forall m1, Inv m1 -> legal_ops_b lay m1 rest = true) ->
+  legal_ops_b lay m (locked_rewrite f tmp (cleanup_uidl u (files_of m0 f)) ++ rest) = true.
+Proof.
+  intros I0 I V Hu K. destruct (inv_uidl_text _ _ _ I Hu) as [_ [Hw Hok]].
+  apply rewrite_k; [exact I| |exact (cleanup_uids_ok _ _ Hok)| |].
+  - apply cleanup_wf; [exact Hw|]. intros x Hx. exact (proj2 (proj2 (files_of_ok _ _ I0 x Hx))).
+  - intros u0 Hu0. rewrite <- (uidl_at_fun _ _ _ _ Hu Hu0).
+    destruct (cleanup_extends m0 f u I0 Hok) as [H1 [H2 [H3 H4]]].
+    split; [exact H1|]. split; [exact H2|]. split; [exact H3|].
+    intros uid k Hr Hf. apply H4; [exact Hr|]. apply (view_has_file _ _ f k V). exact Hf.
+  - intros m1 I1 _. exact (K m1 I1).
+Qed.
+
+(* ---------------------------------------------------------------- CREATE *)
+Lemma create_core lay m f val guid tmp rest :
+  Inv m -> lookup m (PCtl f CUidl) = None -> wf_guid guid = true ->
+  (forall m1, Inv m1 -> legal_ops_b lay m1 rest = true) ->
+  legal_ops_b lay m
+    ([OMkdir (PDir f); OMkdir (PSub f STmp); OMkdir (PSub f SNew); OMkdir (PSub f SCur);
+      OCreat (PCtl f CMdf)]
+     ++ locked_rewrite f tmp {| u_val := val; u_next := 1; u_guid := guid; u_recs := [] |}
+     ++ rest) = true.
+Proof.
+  intros I Hn Hg K. cbn [app].
+  apply step_k; [exact I|reflexivity|]. intros m1 A1 _ I1.
+  apply step_k; [exact I1|reflexivity|]. intros m2 A2 _ I2.
+  apply step_k; [exact I2|reflexivity|]. intros m3 A3 _ I3.
+  apply step_k; [exact I3|reflexivity|]. intros m4 A4 _ I4.
+  apply step_k; [exact I4|reflexivity|]. intros m5 A5 _ I5.
+  assert (Hn5 : lookup m5 (PCtl f CUidl) = None).
+  { rewrite (apply_op_frame _ _ _ _ (PCtl f CUidl) A5) by (cbn; intro E; discriminate E).
+    rewrite (apply_op_frame _ _ _ _ (PCtl f CUidl) A4) by (cbn; intro E; discriminate E).
+    rewrite (apply_op_frame _ _ _ _ (PCtl f CUidl) A3) by (cbn; intro E; discriminate E).
+    rewrite (apply_op_frame _ _ _ _ (PCtl f CUidl) A2) by (cbn; intro E; discriminate E).
+    rewrite (apply_op_frame _ _ _ _ (PCtl f CUidl) A1) by (cbn; intro E; discriminate E).
+    exact Hn. }
+  apply rewrite_k; [exact I5| | | |].
+  - unfold wf_uidl. cbn [u_guid u_recs forallb nodup_uids]. unfold wf_guid in Hg.
+    destruct guid; [discriminate|]. rewrite Hg. reflexivity.
+  - split; cbn [u_recs map]; [constructor|intros r []].
+  - intros u [t [Hl _]]. rewrite Hn5 in Hl. discriminate.
+  - intros m6 I6 _. exact (K m6 I6).
+Qed.
+
+(* --------------------------------------------------------- subscriptions *)
+Lemma subs_ops_static lay names tmp : forallb (static lay) (subs_ops names tmp) = true.
+Proof. reflexivity. Qed.
+
+(* ------------------------------------------- the guards of Ops.run_cmd *)
+Lemma ready_uidl_at m f u : ready m f = Some u -> uidl_at m f u.
+Proof.
+  unfold ready, read_uidl. destruct (folder_ok m f); [|discriminate].
+  destruct (lookup m (PCtl f CUidl)) as [[|[c|t]]|] eqn:E; try discriminate.
+  destruct (parse_uidl t) as [u0| | |] eqn:P; try discriminate.
+  destruct (unknown_files u0 (files_of m f)); [|discriminate].
+  intro H. injection H as <-. exists t. split; [exact E|exact P].
+Qed.
+
+Lemma key_fresh_unused m k : key_fresh m k = true -> key_unused m k.
+Proof.
+  unfold key_fresh. intros H f s i _. destruct (lookup m (PMsg f s k i)) eqn:E; [|reflexivity].
+  apply lookup_In in E. apply negb_true_iff in H.
+  assert (existsb (fun e => match fst e with PMsg _ _ k0 _ => bytes_eqb k0 k | _ => false end) m
+          = true).
+  { apply existsb_exists. eexists. split; [exact E|]. cbn [fst]. apply bytes_eqb_refl. }
+  congruence.
+Qed.
+
+Lemma nodup_keys_sound l : nodup_keys l = true -> NoDup l.
+Proof.
+  induction l as [|k l IH]; cbn [nodup_keys]; intro H; [constructor|].
+  apply andb_true_iff in H as [H1 H2]. constructor; [|exact (IH H2)].
+  intro Hin. apply negb_true_iff in H1.
+  assert (existsb (bytes_eqb k) l = true)
+    by (apply existsb_exists; exists k; split; [exact Hin|apply bytes_eqb_refl]).
+  congruence.
+Qed.
+
+Lemma keys_ok_sound m keys : keys_ok m keys = true ->
+  (forall k, In k keys -> key_unused m k /\ wf_key k = true) /\ NoDup keys.
+Proof.
+  unfold keys_ok. intro H. apply andb_true_iff in H as [H1 H2]. split.
+  - intros k Hk. pose proof (forallb_In _ _ H1 k Hk) as Hb. cbn in Hb.
+    apply andb_true_iff in Hb as [Hf Hw]. split; [exact (key_fresh_unused _ _ Hf)|exact Hw].
+  - exact (nodup_keys_sound _ H2).
+Qed.
+
+Lemma legal_ops_b_app_inv lay l1 : forall m l2,
+  Inv m -> legal_ops_b lay m l1 = true ->
+  (forall m1, Inv m1 -> legal_ops_b lay m1 l2 = true) ->
+  legal_ops_b lay m (l1 ++ l2) = true.
+Proof.
+  induction l1 as [|o l1 IH]; intros m l2 I H K; cbn [app]; [exact (K m I)|].
+  cbn [legal_ops_b] in H. apply andb_true_iff in H as [H1 H2].
+  apply step_k; [exact I|exact H1|]. intros m1 A _ I1. rewrite A in H2.
+  exact (IH m1 l2 I1 H2 K).
+Qed.
+
+Lemma renames_clear_legal lay l : forall m,
+  renames_clear lay m l = true ->
+  legal_ops_b lay m (map (fun fg => ORenameDir (fst fg) (snd fg)) l) = true.
+Proof.
+  induction l as [|[f g] l IH]; intros m H; [reflexivity|].
+  cbn [renames_clear] in H. apply andb_true_iff in H as [H1 H2].
+  cbn [map legal_ops_b fst snd legal_b]. unfold rename_ok_b. rewrite H1. cbn [andb].
+  destruct (apply_op lay m (ORenameDir f g)); [exact (IH _ H2)|reflexivity].
+Qed.
+
+(* ============================ every command emits only legal operations *)
+Theorem run_cmd_legal lay m sel c :
+  Inv m -> legal_ops_b lay m (o_ops (run_cmd lay m sel c)) = true.
+Proof.
+  intro I. destruct c as [f ro order|f msgs|uids mode fl|uids g names|uids g tmps| |tmp| |
+                          |f val guid tmp|a b order|n tmp|n tmp]; cbn [run_cmd].
+  - (* SELECT / EXAMINE *)
+    destruct (negb (exists_ m (PDir f))); [reflexivity|].
+    destruct (ready m f) as [u|]; [|reflexivity].
+    destruct ro; [exact (static_ops_legal _ _ _ (scratch_list_static lay _ (reset_ops_scratch f)) I)|].
+    destruct (perm_of bytes_eqb order _); [|reflexivity]. cbn [o_ops].
+    apply static_ops_legal; [|exact I]. apply forallb_app_true.
+    + exact (scratch_list_static lay _ (reset_ops_scratch f)).
+    + apply claim_ops_static. intros x Hx. apply filter_In in Hx as [Hx _].
+      exact (proj2 (proj2 (files_of_ok _ _ I x Hx))).
+  - (* APPEND *)
+    destruct (negb (exists_ m (PDir f))); [reflexivity|].
+    destruct (ready m f) as [u|] eqn:Er; [|reflexivity].
+    destruct (keys_ok m (map a_key msgs) && forallb wf_amsg msgs) eqn:Eg; [|reflexivity].
+    apply andb_true_iff in Eg as [Hk Hw]. destruct (keys_ok_sound _ _ Hk) as [Hku Hnd].
+    cbn [o_ops].
+    apply (scratch_ops_k lay _ (reset_ops_scratch f)); [exact I|]. intros m1 I1 V1.
+    apply append_core.
+    + unfold dest_sub. destruct sel as [[s0 [|]]|]; try reflexivity.
+      destruct (fname_eqb s0 f); reflexivity.
+    + exact I1.
+    + apply (view_uidl_at _ _ f u V1). exact (ready_uidl_at _ _ _ Er).
+    + intros a Ha. split; [|exact (forallb_In _ _ Hw a Ha)].
+      apply (view_key_unused _ _ _ V1). apply Hku. apply in_map. exact Ha.
+    + exact Hnd.
+    + intros m2 I2. exact (static_ops_legal _ _ _ (tail_ops_static lay _ _) I2).
+  - (* STORE *)
+    destruct sel as [[f [|]]|]; try reflexivity.
+    destruct (ready m f) as [u|]; [|reflexivity]. cbn [o_ops].
+    apply static_ops_legal; [|exact I]. apply forallb_app_true.
+    + exact (scratch_list_static lay _ (reset_ops_scratch f)).
+    + apply store_ops_static. exact (files_of_ok _ _ I).
+  - (* COPY *)
+    destruct sel as [[f ro]|]; [|reflexivity].
+    destruct (ready m f) as [us|] eqn:Ef; [|reflexivity].
+    destruct (negb (exists_ m (PDir g)));
+      [exact (static_ops_legal _ _ _ (scratch_list_static lay _ (reset_ops_scratch f)) I)|].
+    destruct (ready m g) as [ug|] eqn:Eg; [|reflexivity].
+    destruct (keys_ok m (map fst names)) eqn:Ek; [|reflexivity].
+    destruct (keys_ok_sound _ _ Ek) as [Hku Hnd]. cbn [o_ops].
+    apply (scratch_ops_k lay _ (reset_ops_scratch f)); [exact I|]. intros m1 I1 V1.
+    apply (scratch_ops_k lay _ (reset_ops_scratch g)); [exact I1|]. intros m2 I2 V2.
+    pose proof (same_view_trans _ _ _ V1 V2) as V.
+    rewrite <- (app_nil_r (copy_ops _ _ _ _ _ _ _)). apply copy_core.
+    + unfold dest_sub. destruct ro; try reflexivity. destruct (fname_eqb f g); reflexivity.
+    + exact (proj1 (proj2 (inv_uidl_text _ _ _ I (ready_uidl_at _ _ _ Ef)))).
+    + exact (files_of_ok _ _ I).
+    + exact I2.
+    + apply (view_uidl_at _ _ g ug V). exact (ready_uidl_at _ _ _ Eg).
+    + intros kn Hkn. destruct (Hku (fst kn) (in_map fst _ _ Hkn)) as [H1 H2].
+      split; [exact (view_key_unused _ _ _ V H1)|exact H2].
+    + exact Hnd.
+    + reflexivity.
+  - (* MOVE *)
+    destruct sel as [[f ro]|]; [|reflexivity].
+    destruct (ready m f) as [us|] eqn:Ef; [|reflexivity].
+    destruct (negb (exists_ m (PDir g)));
+      [exact (static_ops_legal _ _ _ (scratch_list_static lay _ (reset_ops_scratch f)) I)|].
+    destruct (fname_eqb f g) eqn:Efg.
+    + (* into the selected mailbox itself *)
+      destruct (negb (keys_ok m (evens tmps))) eqn:Ek; [reflexivity|].
+      apply negb_false_iff in Ek. destruct (keys_ok_sound _ _ Ek) as [Hku Hnd]. cbn [o_ops].
+      apply (scratch_ops_k lay _ (reset_ops_scratch f)); [exact I|]. intros m1 I1 V1.
+      apply (scratch_ops_k lay _ (reset_ops_scratch f)); [exact I1|]. intros m2 I2 V2.
+      pose proof (same_view_trans _ _ _ V1 V2) as V.
+      rewrite <- (app_nil_r (self_move_ops _ _ _ _ _ _)). apply self_move_core.
+      * unfold dest_sub. destruct ro; try reflexivity. destruct (fname_eqb f f); reflexivity.
+      * exact (files_of_ok _ _ I).
+      * exact I2.
+      * apply (view_uidl_at _ _ f us V). exact (ready_uidl_at _ _ _ Ef).
+      * intros k Hk. destruct (Hku k Hk) as [H1 H2].
+        split; [exact (view_key_unused _ _ _ V H1)|exact H2].
+      * exact Hnd.
+      * reflexivity.
+    + destruct (ready m g) as [ug|] eqn:Eg; [|reflexivity]. cbn [o_ops].
+      assert (Hne : f <> g).
+      { intro E. subst g. rewrite fname_eqb_refl in Efg. discriminate. }
+      apply (scratch_ops_k lay _ (reset_ops_scratch f)); [exact I|]. intros m1 I1 V1.
+      apply (scratch_ops_k lay _ (reset_ops_scratch g)); [exact I1|]. intros m2 I2 V2.
+      pose proof (same_view_trans _ _ _ V1 V2) as V.
+      rewrite <- (app_nil_r (move_ops _ _ _ _ _ _ _ _)). apply move_core.
+      * unfold dest_sub. destruct ro; try reflexivity. destruct (fname_eqb f g); reflexivity.
+      * exact Hne.
+      * exact (files_of_ok _ _ I).
+      * exact I2.
+      * apply (view_uidl_at _ _ f us V). exact (ready_uidl_at _ _ _ Ef).
+      * apply (view_uidl_at _ _ g ug V). exact (ready_uidl_at _ _ _ Eg).
+      * reflexivity.
+  - (* EXPUNGE *)
+    destruct sel as [[f [|]]|]; try reflexivity.
+    destruct (ready m f) as [u|]; [|reflexivity]. cbn [o_ops].
+    apply static_ops_legal; [|exact I]. apply forallb_app_true.
+    + exact (scratch_list_static lay _ (reset_ops_scratch f)).
+    + apply expunge_ops_static. exact (files_of_ok _ _ I).
+  - (* CHECK *)
+    destruct sel as [[f ro]|]; [|reflexivity].
+    destruct (ready m f) as [u|] eqn:Ef; [|reflexivity]. cbn [o_ops].
+    destruct (u_recs u) eqn:Er.
+    + apply static_ops_legal; [reflexivity|exact I].
+    + apply (scratch_ops_k lay _ (reset_ops_scratch f)); [exact I|]. intros m1 I1 V1.
+      rewrite <- (app_nil_r (locked_rewrite _ _ _)).
+      apply (check_core lay m m1); [exact I|exact I1|exact V1| |reflexivity].
+      apply (view_uidl_at _ _ f u V1). exact (ready_uidl_at _ _ _ Ef).
+  - (* NOOP *)
+    destruct sel as [[f ro]|]; [|reflexivity].
+    destruct (ready m f); [|reflexivity].
+    exact (static_ops_legal _ _ _ (scratch_list_static lay _ (reset_ops_scratch f)) I).
+  - (* CLOSE *)
+    destruct sel as [[f [|]]|]; try reflexivity.
+    destruct (ready m f) as [u|]; [|reflexivity]. cbn [o_ops].
+    apply static_ops_legal; [|exact I]. apply forallb_app_true.
+    + exact (scratch_list_static lay _ (reset_ops_scratch f)).
+    + apply expunge_ops_static. exact (files_of_ok _ _ I).
+  - (* CREATE *)
+    destruct f as [|f0 fr]; [reflexivity|].
+    destruct (exists_ m (PDir (f0 :: fr)) || negb (parent_exists lay m (f0 :: fr))
+              || exists_ m (PCtl (f0 :: fr) CUidl) || negb (wf_guid guid)) eqn:Eg; [reflexivity|].
+    apply orb_false_iff in Eg as [Eg Hg]. apply orb_false_iff in Eg as [_ Hu].
+    apply negb_false_iff in Hg. cbn [o_ops].
+    apply create_core; [exact I| |exact Hg|].
+    + unfold exists_ in Hu. destruct (lookup m (PCtl (f0 :: fr) CUidl)); [discriminate|reflexivity].
+    + intros m1 I1. exact (static_ops_legal _ _ _ (tail_ops_static lay _ _) I1).
+  - (* RENAME *)
+    destruct a as [|a0 ar]; [reflexivity|]. destruct b as [|b0 br]; [reflexivity|].
+    destruct (negb (exists_ m (PDir (a0 :: ar))) || exists_ m (PDir (b0 :: br))
+              || negb (parent_exists lay m (b0 :: br)) || is_prefix (a0 :: ar) (b0 :: br));
+      [reflexivity|].
+    destruct (perm_of fname_eqb order _ && renames_clear lay m _) eqn:Eg; [|reflexivity].
+    apply andb_true_iff in Eg as [_ Hc]. cbn [o_ops].
+    apply legal_ops_b_app_inv; [exact I| |].
+    + pose proof (renames_clear_legal lay _ m Hc) as H. rewrite map_map in H. cbn [fst snd] in H.
+      exact H.
+    + intros m1 I1. exact (static_ops_legal _ _ _ (tail_ops_static lay _ _) I1).
+  - (* SUBSCRIBE *)
+    cbn [o_ops]. apply static_ops_legal; [|exact I].
+    apply forallb_app_true; [reflexivity|]. apply forallb_app_true; [reflexivity|].
+    apply forallb_app_true; [reflexivity|exact (tail_ops_static lay _ _)].
+  - (* UNSUBSCRIBE *)
+    cbn [o_ops]. apply static_ops_legal; [|exact I].
+    apply forallb_app_true; [reflexivity|]. apply forallb_app_true.
+    + destruct (remove_name n (recover_subs m)); [|reflexivity].
+      destruct (exists_ m (PCtl [] CSubs)); reflexivity.
+    + apply forallb_app_true; [reflexivity|exact (tail_ops_static lay _ _)].
+Qed.
+
+(* ================================================= histories of commands *)
+Lemma legal_ops_b_app lay l1 : forall m l2,
+  legal_ops_b lay m l1 = true ->
+  (snd (apply_ops lay m l1) = true -> legal_ops_b lay (fst (apply_ops lay m l1)) l2 = true) ->
+  legal_ops_b lay m (l1 ++ l2) = true.
+Proof.
+  induction l1 as [|o l1 IH]; intros m l2 H K; cbn [app]; [exact (K eq_refl)|].
+  cbn [legal_ops_b apply_ops] in *. apply andb_true_iff in H as [H1 H2]. rewrite H1. cbn [andb].
+  destruct (apply_op lay m o) as [m1|]; [|reflexivity]. exact (IH m1 l2 H2 K).
+Qed.
+
+Lemma apply_ops_inv lay m l : Inv m -> legal_ops_b lay m l = true -> Inv (fst (apply_ops lay m l)).
+Proof. intros I H. exact (run_inv _ _ _ _ I (legal_ops_b_applied _ _ _ H)). Qed.
+
+(* every operation of every history is legal where it is applied *)
+Theorem hist_ops_legal lay h : forall m sel,
+  Inv m -> legal_ops_b lay m (hist_ops lay m sel h) = true.
+Proof.
+  induction h as [|c r IH]; intros m sel I; [reflexivity|]. cbn [hist_ops].
+  pose proof (run_cmd_legal lay m sel c I) as Hc.
+  apply legal_ops_b_app; [exact Hc|]. intros _. apply IH. exact (apply_ops_inv _ _ _ I Hc).
+Qed.
+
+(* ... hence, for every history and every kill point: *)
+Theorem hist_crash_inv lay m sel h k :
+  Inv m -> Inv (after_crash lay m (hist_ops lay m sel h) k).
+Proof. intro I. exact (crash_inv _ _ _ _ I (hist_ops_legal lay h m sel I)). Qed.
+
+Theorem hist_crash_serves lay m sel h k f v uid key fl c :
+  Inv m -> serves m f v uid key fl c -> ~ touched (crash k (hist_ops lay m sel h)) key ->
+  serves (after_crash lay m (hist_ops lay m sel h) k)
+         (moved_names lay (executed lay m (hist_ops lay m sel h) k) f) v uid key fl c.
+Proof. intros I S T. exact (crash_serves _ _ _ _ _ _ _ _ _ _ (hist_ops_legal lay h m sel I) S T). Qed.
+
+(* ===================== completed commands: what an acknowledgement means *)
+Lemma apply_ops_split lay l1 : forall m l2 m',
+  apply_ops lay m (l1 ++ l2) = (m', true) ->
+  exists m1, apply_ops lay m l1 = (m1, true) /\ apply_ops lay m1 l2 = (m', true).
+Proof.
+  induction l1 as [|o l1 IH]; intros m l2 m' H; cbn [app apply_ops] in *.
+  - exists m. split; [reflexivity|exact H].
+  - destruct (apply_op lay m o) as [m0|]; [|discriminate]. exact (IH m0 l2 m' H).
+Qed.
+
+Lemma scratch_ops_view lay l : forallb scratch l = true -> forall m m1,
+  apply_ops lay m l = (m1, true) -> same_view m m1.
+Proof.
+  induction l as [|o l IH]; intros Hs m m1 A; cbn [apply_ops] in A.
+  - injection A as <-. apply same_view_refl.
+  - cbn [forallb] in Hs. apply andb_true_iff in Hs as [Ho Hl].
+    destruct (apply_op lay m o) as [m0|] eqn:E; [|discriminate].
+    exact (same_view_trans _ _ _ (scratch_view _ _ _ _ E Ho) (IH Hl _ _ A)).
+Qed.
+
+Lemma locked_rewrite_view lay m f tmp u' m1 :
+  apply_ops lay m (locked_rewrite f tmp u') = (m1, true) -> view_uidl m m1 f u'.
+Proof.
+  unfold locked_rewrite, rewrite_ops, lock_op, unlock_op. cbn [app apply_ops].
+  destruct (apply_op lay m (OCreat (PCtl f CUidlLock))) as [a1|] eqn:A1; [|discriminate].
+  destruct (apply_op lay a1 (OCreat (PTmp f tmp))) as [a2|] eqn:A2; [|discriminate].
+  destruct (apply_op lay a2 (OWrite (PTmp f tmp) (Text (print_uidl u')))) as [a3|] eqn:A3; [|discriminate].
+  destruct (apply_op lay a3 (ORename (PTmp f tmp) (PCtl f CUidl))) as [a4|] eqn:A4; [|discriminate].
+  destruct (apply_op lay a4 (OUnlink (PCtl f CUidlLock))) as [a5|] eqn:A5; [|discriminate].
+  intro H. injection H as <-. intros q Hq.
+  assert (V3 : same_view m a3).
+  { apply (same_view_trans _ a1); [exact (scratch_view _ _ _ _ A1 eq_refl)|].
+    apply (same_view_trans _ a2); [exact (scratch_view _ _ _ _ A2 eq_refl)|].
+    exact (scratch_view _ _ _ _ A3 eq_refl). }
+  assert (T3 : lookup a3 (PTmp f tmp) = Some (File (Text (print_uidl u')))).
+  { cbn [apply_op] in A3. destruct (lookup a2 (PTmp f tmp)) as [[|c0]|] eqn:E; try discriminate.
+    injection A3 as <-. rewrite (lookup_replace _ _ _ _ _ E), path_eqb_refl. reflexivity. }
+  rewrite (scratch_view _ _ _ _ A5 eq_refl q Hq).
+  destruct (apply_rename _ _ _ _ _ A4) as [c [Hc Hl]]. rewrite T3 in Hc. injection Hc as <-.
+  rewrite Hl. destruct (path_eqb (PCtl f CUidl) q); [reflexivity|].
+  destruct (path_eqb (PTmp f tmp) q) eqn:E.
+  - apply path_eqb_eq in E. subst q. discriminate Hq.
+  - exact (V3 q Hq).
+Qed.
+
+Lemma add_ops_view lay m f s key info cid m1 :
+  apply_ops lay m (add_ops f s key info cid) = (m1, true) ->
+  view_add m m1 (PMsg f s key info) (File (Opaque cid)).
+Proof.
+  unfold add_ops. cbn [apply_ops].
+  destruct (apply_op lay m (OCreat (PMsg f STmp key []))) as [a1|] eqn:A1; [|discriminate].
+  destruct (apply_op lay a1 (OWrite (PMsg f STmp key []) (Opaque cid))) as [a2|] eqn:A2; [|discriminate].
+  destruct (apply_op lay a2 (OUtime (PMsg f STmp key []))) as [a3|] eqn:A3; [|discriminate].
+  destruct (apply_op lay a3 (OLink (PMsg f STmp key []) (PMsg f s key info))) as [a4|] eqn:A4; [|discriminate].
+  destruct (apply_op lay a4 (OUnlink (PMsg f STmp key []))) as [a5|] eqn:A5; [|discriminate].
+  intro H. injection H as <-. intros q Hq.
+  assert (V3 : same_view m a3).
+  { apply (same_view_trans _ a1); [exact (scratch_view _ _ _ _ A1 eq_refl)|].
+    apply (same_view_trans _ a2); [exact (scratch_view _ _ _ _ A2 eq_refl)|].
+    exact (scratch_view _ _ _ _ A3 eq_refl). }
+  assert (F3 : lookup a3 (PMsg f STmp key []) = Some (File (Opaque cid))).
+  { cbn [apply_op] in A3. destruct (exists_ a2 (PMsg f STmp key [])); [|discriminate].
+    injection A3 as <-.
+    cbn [apply_op] in A2. destruct (lookup a1 (PMsg f STmp key [])) as [[|c0]|] eqn:E; try discriminate.
+    injection A2 as <-. rewrite (lookup_replace _ _ _ _ _ E), path_eqb_refl. reflexivity. }
+  rewrite (scratch_view _ _ _ _ A5 eq_refl q Hq).
+  destruct (apply_link _ _ _ _ _ A4) as [c [Hc [_ Hl]]]. rewrite F3 in Hc. injection Hc as <-.
+  rewrite Hl. destruct (path_eqb (PMsg f s key info) q); [reflexivity|exact (V3 q Hq)].
+Qed.
+
+(* delivered files other than the new one stay where they are *)
+Lemma view_add_file_at m m1 p n g k i c :
+  view_add m m1 p n -> file_at m g k i c -> (forall s, p <> PMsg g s k i) -> file_at m1 g k i c.
+Proof.
+  intros V [s [Hs Hl]] Hne. exists s. split; [exact Hs|].
+  rewrite (V _ (live_not_junk g s k i Hs)).
+  destruct (path_eqb p (PMsg g s k i)) eqn:E; [|exact Hl].
+  apply path_eqb_eq in E. exfalso. exact (Hne s E).
+Qed.
+
+Lemma view_uidl_file_at m m1 f u g k i c :
+  view_uidl m m1 f u -> file_at m g k i c -> file_at m1 g k i c.
+Proof.
+  intros V [s [Hs Hl]]. exists s. split; [exact Hs|].
+  rewrite (V _ (live_not_junk g s k i Hs)). exact Hl.
+Qed.
+
+Lemma view_add_new_file m m1 f s k i c : live s = true ->
+  view_add m m1 (PMsg f s k i) (File (Opaque c)) -> file_at m1 f k i c.
+Proof. intros Hs V. exists s. split; [exact Hs|].
+  rewrite (V _ (live_not_junk f s k i Hs)), path_eqb_refl. reflexivity. Qed.
+
+Lemma with_rec_recorded_new u fields key info : uids_ok u -> wf_key key = true ->
+  recorded (with_rec u fields (key ++ 58 :: info)) (u_next u) key.
+Proof.
+  intros Hok Hk. eexists. split; [rewrite (with_rec_recs _ _ _ Hok); apply in_or_app; right;
+    left; reflexivity|]. split; [reflexivity|]. unfold r_key. cbn [r_fname].
+  exact (wf_key_before_colon _ _ Hk).
+Qed.
+
+Lemma with_rec_recorded_old u fields fn uid k : uids_ok u ->
+  recorded u uid k -> recorded (with_rec u fields fn) uid k.
+Proof.
+  intros Hok [r [Hr [Hu Hk]]]. exists r. split; [|split; assumption].
+  rewrite (with_rec_recs _ _ _ Hok). apply in_or_app. left. exact Hr.
+Qed.
+
+(* what has been delivered so far: recorded, and the file is there *)
+Definition delivered (m : fs) (f : fname) (u : uidl) (d : N * bytes * bytes * N) : Prop :=
+  let '(uid, k, i, c) := d in recorded u uid k /\ file_at m f k i c.
+
+Lemma delivered_serves m f u uid k i c :
+  uidl_at m f u -> delivered m f u (uid, k, i, c) ->
+  serves m f (u_val u) uid k (flags_of_info i) c.
+Proof. intros Hu [Hr Hf]. exists u, i. repeat split; assumption. Qed.
+
+(* ---- APPEND: every message is served under next, next+1, ... *)
+Fixpoint append_delivers (u : uidl) (msgs : list amsg) : list (N * bytes * bytes * N) :=
+  match msgs with
+  | [] => []
+  | a :: r => (u_next u, a_key a, info_of_letters (a_flags a), a_cid a)
+              :: append_delivers (add_rec u a) r
+  end.
+
+Lemma append_done lay f s : live s = true -> forall msgs m u m' done,
+  apply_ops lay m (append_ops f s u msgs) = (m', true) ->
+  wf_uidl u = true -> uids_ok u -> uidl_at m f u ->
+  (forall a, In a msgs -> wf_amsg a = true) -> NoDup (map a_key msgs) ->
+  (forall d, In d done -> delivered m f u d) ->
+  (forall d a, In d done -> In a msgs -> snd (fst (fst d)) <> a_key a) ->
+  exists u', uidl_at m' f u' /\ u_val u' = u_val u
+             /\ forall d, In d (done ++ append_delivers u msgs) -> delivered m' f u' d.
+Proof.
+  intro Hs. induction msgs as [|a r IH]; intros m u m' done A Hw Hok Hu Hm Hnd Hd Hdk.
+  - cbn in A. injection A as <-. exists u. split; [exact Hu|]. split; [reflexivity|].
+    intros d Hin. rewrite app_nil_r in Hin. exact (Hd d Hin).
+  - cbn [append_ops] in A. inversion Hnd as [|? ? Hnot Hnd']; subst.
+    destruct (apply_ops_split _ _ _ _ _ A) as [m1 [A1 A']].
+    destruct (apply_ops_split _ _ _ _ _ A') as [m2 [A2 A3]].
+    pose proof (add_ops_view _ _ _ _ _ _ _ _ A1) as V1.
+    pose proof (locked_rewrite_view _ _ _ _ _ _ A2) as V2.
+    assert (Hwa : wf_amsg a = true) by (apply Hm; left; reflexivity).
+    unfold wf_amsg in Hwa. apply andb_true_iff in Hwa as [Hwa Hwt].
+    apply andb_true_iff in Hwa as [Hwk Hwe].
+    fold (add_rec u a) in A2, A3, V2.
+    assert (Hw' : wf_uidl (add_rec u a) = true).
+    { apply with_rec_wf; try assumption; [|reflexivity|exact (info_of_letters_chars _)].
+      cbn [forallb]. unfold wf_field. cbn [fst snd]. rewrite Hwe, Hwt. reflexivity. }
+    set (d0 := (u_next u, a_key a, info_of_letters (a_flags a), a_cid a)).
+    destruct (IH m2 (add_rec u a) m' (done ++ [d0]) A3 Hw' (with_rec_uids_ok _ _ _ Hok)
+                (view_uidl_at_new _ _ _ _ V2 Hw') (fun b Hb => Hm b (or_intror Hb)) Hnd')
+      as [u' [Hu' [Hv Hall]]].
+    + intros d Hin. apply in_app_or in Hin as [Hin|[<-|[]]].
+      * destruct d as [[[uid k] i] c]. destruct (Hd _ Hin) as [Hr Hf]. split.
+        -- exact (with_rec_recorded_old _ _ _ _ _ Hok Hr).
+        -- apply (view_uidl_file_at _ _ _ _ _ _ _ _ V2).
+           apply (view_add_file_at _ _ _ _ _ _ _ _ V1 Hf). intros s0 E. inversion E; subst.
+           exact (Hdk _ a Hin (or_introl eq_refl) eq_refl).
+      * split; [exact (with_rec_recorded_new _ _ _ _ Hok Hwk)|].
+        apply (view_uidl_file_at _ _ _ _ _ _ _ _ V2). exact (view_add_new_file _ _ _ _ _ _ _ Hs V1).
+    + intros d b Hin Hb. apply in_app_or in Hin as [Hin|[<-|[]]].
+      * exact (Hdk d b Hin (or_intror Hb)).
+      * unfold d0. cbn [fst snd]. intro E. apply Hnot. rewrite E. apply in_map. exact Hb.
+    + exists u'. split; [exact Hu'|]. split; [rewrite Hv; reflexivity|].
+      intros d Hin. apply Hall. cbn [append_delivers] in Hin. rewrite <- app_assoc. exact Hin.
+Qed.
+
+(* an acknowledged APPEND serves every one of its messages: the j-th under
+   uid next+j, with the requested system flags and its content *)
+Theorem append_acked_served lay f s msgs m u m' :
+  live s = true -> Inv m -> uidl_at m f u ->
+  apply_ops lay m (append_ops f s u msgs) = (m', true) ->
+  (forall a, In a msgs -> wf_amsg a = true) -> NoDup (map a_key msgs) ->
+  forall d, In d (append_delivers u msgs) ->
+  let '(uid, k, i, c) := d in serves m' f (u_val u) uid k (flags_of_info i) c.
+Proof.
+  intros Hs I Hu A Hm Hnd d Hin. destruct (inv_uidl_text _ _ _ I Hu) as [_ [Hw Hok]].
+  destruct (append_done lay f s Hs msgs m u m' [] A Hw Hok Hu Hm Hnd) as [u' [Hu' [Hv Hall]]];
+    [intros ? []|intros ? ? []|].
+  destruct d as [[[uid k] i] c]. rewrite <- Hv.
+  exact (delivered_serves _ _ _ _ _ _ _ Hu' (Hall _ Hin)).
+Qed.
+
+Lemma append_delivers_nth msgs : forall u j a, nth_error msgs j = Some a ->
+  nth_error (append_delivers u msgs) j
+  = Some (u_next u + N.of_nat j, a_key a, info_of_letters (a_flags a), a_cid a).
+Proof.
+  induction msgs as [|b r IH]; intros u [|j] a H; try discriminate H; cbn [nth_error] in H.
+  - injection H as ->. cbn. rewrite N.add_0_r. reflexivity.
+  - cbn [append_delivers nth_error]. rewrite (IH (add_rec u b) j a H).
+    assert (En : u_next (add_rec u b) = u_next u + 1) by reflexivity. rewrite En.
+    rewrite Nat2N.inj_succ.
+    replace (u_next u + 1 + N.of_nat j) with (u_next u + N.succ (N.of_nat j)) by lia. reflexivity.
+Qed.
+
+(* ---- COPY: every copied message is served in the destination *)
+Fixpoint copy_delivers (us : uidl) (fls : list mfile) (ug : uidl) (uids : list N)
+         (names : list (bytes * bytes)) : list (N * bytes * bytes * N) :=
+  match uids with
+  | [] => []
+  | uid :: r =>
+      match locate us fls uid, names with
+      | Some (rec, x), (key, tmp) :: names' =>
+          (u_next ug, key, m_info x, m_cid x)
+          :: copy_delivers us fls (with_rec ug (r_fields rec) (key ++ 58 :: m_info x)) r names'
+      | Some _, [] => []
+      | None, _ => copy_delivers us fls ug r names
+      end
+  end.
+
+Lemma copy_done lay g s us fls : live s = true -> wf_uidl us = true -> files_ok fls ->
+  forall uids names m ug m' done,
+  apply_ops lay m (copy_ops g s us fls ug uids names) = (m', true) ->
+  wf_uidl ug = true -> uids_ok ug -> uidl_at m g ug ->
+  (forall kn, In kn names -> wf_key (fst kn) = true) -> NoDup (map fst names) ->
+  (forall d, In d done -> delivered m g ug d) ->
+  (forall d kn, In d done -> In kn names -> snd (fst (fst d)) <> fst kn) ->
+  exists ug', uidl_at m' g ug' /\ u_val ug' = u_val ug
+              /\ forall d, In d (done ++ copy_delivers us fls ug uids names) -> delivered m' g ug' d.
+Proof.
+  intros Hs Hwus Hfls. induction uids as [|uid r IH]; intros names m ug m' done A Hw Hok Hu Hn Hnd Hd Hdk.
+  - cbn in A. injection A as <-. exists ug. split; [exact Hu|]. split; [reflexivity|].
+    intros d Hin. cbn [copy_delivers] in Hin. rewrite app_nil_r in Hin. exact (Hd d Hin).
+  - cbn [copy_ops copy_delivers] in *.
+    destruct (locate us fls uid) as [[rec x]|] eqn:El;
+      [|exact (IH names m ug m' done A Hw Hok Hu Hn Hnd Hd Hdk)].
+    destruct names as [|[key tmp] names'].
+    { cbn in A. injection A as <-. exists ug. split; [exact Hu|]. split; [reflexivity|].
+      intros d Hin. rewrite app_nil_r in Hin. exact (Hd d Hin). }
+    destruct (locate_spec _ _ _ _ _ El) as [Hrec [_ [Hx _]]].
+    destruct (Hfls x Hx) as [_ [_ Hwi]].
+    destruct (wf_rec_fields _ (wf_uidl_rec _ _ Hwus Hrec)) as [Hf [Hsf _]].
+    pose proof (Hn (key, tmp) (or_introl eq_refl)) as Hwk. cbn [fst] in Hwk.
+    cbn [map fst] in Hnd. apply NoDup_cons_iff in Hnd as [Hnot Hnd'].
+    destruct (apply_ops_split _ _ _ _ _ A) as [m1 [A1 A']].
+    destruct (apply_ops_split _ _ _ _ _ A') as [m2 [A2 A3]].
+    pose proof (add_ops_view _ _ _ _ _ _ _ _ A1) as V1.
+    pose proof (locked_rewrite_view _ _ _ _ _ _ A2) as V2.
+    set (ug1 := with_rec ug (r_fields rec) (key ++ 58 :: m_info x)) in *.
+    assert (Hw' : wf_uidl ug1 = true) by (apply with_rec_wf; assumption).
+    set (d0 := (u_next ug, key, m_info x, m_cid x)).
+    destruct (IH names' m2 ug1 m' (done ++ [d0]) A3 Hw' (with_rec_uids_ok _ _ _ Hok)
+                (view_uidl_at_new _ _ _ _ V2 Hw') (fun kn Hkn => Hn kn (or_intror Hkn)) Hnd')
+      as [u' [Hu' [Hv Hall]]].
+    + intros d Hin. apply in_app_or in Hin as [Hin|[<-|[]]].
+      * destruct d as [[[uid0 k] i] c]. destruct (Hd _ Hin) as [Hr Hfa]. split.
+        -- exact (with_rec_recorded_old _ _ _ _ _ Hok Hr).
+        -- apply (view_uidl_file_at _ _ _ _ _ _ _ _ V2).
+           apply (view_add_file_at _ _ _ _ _ _ _ _ V1 Hfa). intros s0 E. injection E as _ Ek _.
+           apply (Hdk _ (key, tmp) Hin (or_introl eq_refl)). cbn [fst snd]. symmetry. exact Ek.
+      * split; [exact (with_rec_recorded_new _ _ _ _ Hok Hwk)|].
+        apply (view_uidl_file_at _ _ _ _ _ _ _ _ V2). exact (view_add_new_file _ _ _ _ _ _ _ Hs V1).
+    + intros d kn Hin Hkn. apply in_app_or in Hin as [Hin|[<-|[]]].
+      * exact (Hdk d kn Hin (or_intror Hkn)).
+      * unfold d0. cbn [fst snd]. intro E. apply Hnot. rewrite E. apply in_map. exact Hkn.
+    + exists u'. split; [exact Hu'|]. split; [rewrite Hv; reflexivity|].
+      intros d Hin. apply Hall. rewrite <- app_assoc. exact Hin.
+Qed.
+
+(* ---- MOVE: every moved message is served in the destination *)
+Fixpoint move_delivers (us : uidl) (fls : list mfile) (ug : uidl) (uids : list N)
+         (tmps : list bytes) : list (N * bytes * bytes * N) :=
+  match uids with
+  | [] => []
+  | uid :: r =>
+      match locate us fls uid, tmps with
+      | Some (rec, x), _ :: _ :: tmps' =>
+          (u_next ug, m_key x, m_info x, m_cid x)
+          :: move_delivers (without_rec us uid) fls
+               (with_rec ug (r_fields rec) (fname_of_file x)) r tmps'
+      | Some _, _ => []
+      | None, _ => move_delivers us fls ug r tmps
+      end
+  end.
+
+Lemma r_key_fname_of_file x : wf_key (m_key x) = true -> before_colon (fname_of_file x) = m_key x.
+Proof.
+  intro Hk. unfold fname_of_file. destruct (m_info x) as [|c i].
+  - assert (H : forall c, In c (m_key x) -> c <> 58).
+    { intros c Hc. exact (proj1 (proj2 (value_char_props c (forallb_In _ _ Hk c Hc)))). }
+    clear Hk. induction (m_key x) as [|d k IH]; [reflexivity|]. cbn [before_colon].
+    destruct (N.eqb_spec d 58) as [E|_]; [exfalso; exact (H d (or_introl eq_refl) E)|].
+    rewrite IH; [reflexivity|]. intros c Hc. apply H. right. exact Hc.
+  - exact (wf_key_before_colon _ _ Hk).
+Qed.
+
+Lemma locate_without us fls uid uid' rec x : uid' <> uid ->
+  locate (without_rec us uid) fls uid' = Some (rec, x) -> locate us fls uid' = Some (rec, x).
+Proof.
+  intro Hne. unfold locate, find_rec, without_rec. cbn [u_recs].
+  induction (u_recs us) as [|r l IH]; cbn [filter find]; [intro H; exact H|].
+  destruct (N.eqb_spec (r_uid r) uid) as [E|E]; cbn [negb find].
+  - destruct (N.eqb_spec (r_uid r) uid') as [E2|_]; [congruence|exact IH].
+  - destruct (r_uid r =? uid'); [intro H; exact H|exact IH].
+Qed.
+
+Lemma move_done lay f g s fls : live s = true -> f <> g -> files_ok fls ->
+  forall uids tmps m us ug m' done,
+  apply_ops lay m (move_ops f g s us fls ug uids tmps) = (m', true) ->
+  wf_uidl us = true -> uids_ok us -> NoDup (map r_key (u_recs us)) -> NoDup uids ->
+  wf_uidl ug = true -> uids_ok ug -> uidl_at m g ug ->
+  (forall uid rec x, In uid uids -> locate us fls uid = Some (rec, x) ->
+     lookup m (PMsg f (m_sub x) (m_key x) (m_info x)) = Some (File (Opaque (m_cid x)))) ->
+  (forall d, In d done -> delivered m g ug d) ->
+  (forall d uid rec x, In d done -> In uid uids -> locate us fls uid = Some (rec, x) ->
+     snd (fst (fst d)) <> m_key x) ->
+  exists ug', uidl_at m' g ug' /\ u_val ug' = u_val ug
+              /\ forall d, In d (done ++ move_delivers us fls ug uids tmps) -> delivered m' g ug' d.
+Proof.
+  intros Hs Hfg Hfls. induction uids as [|uid r IH];
+    intros tmps m us ug m' done A Hws Hoks Hkeys Hndu Hwg Hokg Hu Hsrc Hd Hdk.
+  - cbn in A. injection A as <-. exists ug. split; [exact Hu|]. split; [reflexivity|].
+    intros d Hin. cbn [move_delivers] in Hin. rewrite app_nil_r in Hin. exact (Hd d Hin).
+  - apply NoDup_cons_iff in Hndu as [Hnotu Hndu'].
+    cbn [move_ops move_delivers] in *.
+    destruct (locate us fls uid) as [[rec x]|] eqn:El.
+    2:{ apply (IH tmps m us ug m' done A); try assumption.
+        - intros uid0 rec0 x0 Hin. apply Hsrc. right. exact Hin.
+        - intros d uid0 rec0 x0 Hin Hu0. apply (Hdk d uid0 rec0 x0 Hin). right. exact Hu0. }
+    destruct tmps as [|tmp1 [|tmp2 tmps']];
+      try (cbn in A; injection A as <-; exists ug; split; [exact Hu|]; split; [reflexivity|];
+           intros d Hin; rewrite app_nil_r in Hin; exact (Hd d Hin)).
+    destruct (locate_spec _ _ _ _ _ El) as [Hrec [Huid [Hx Hkx]]].
+    destruct (Hfls x Hx) as [Hlx [Hwk Hwi]].
+    destruct (wf_rec_fields _ (wf_uidl_rec _ _ Hws Hrec)) as [Hf [Hsf _]].
+    cbn [app apply_ops] in A.
+    destruct (apply_op lay m (ORename (PMsg f (m_sub x) (m_key x) (m_info x))
+                                      (PMsg g s (m_key x) (m_info x)))) as [m1|] eqn:A1;
+      [|discriminate].
+    destruct (apply_rename _ _ _ _ _ A1) as [c0 [Hc0 Hl1]].
+    rewrite (Hsrc uid rec x (or_introl eq_refl) El) in Hc0. injection Hc0 as <-.
+    destruct (apply_ops_split _ _ _ _ _ A) as [m2 [A2 A']].
+    destruct (apply_ops_split _ _ _ _ _ A') as [m3 [A3 A4]].
+    pose proof (locked_rewrite_view _ _ _ _ _ _ A2) as V2.
+    pose proof (locked_rewrite_view _ _ _ _ _ _ A3) as V3.
+    set (us1 := without_rec us uid) in *.
+    set (ug1 := with_rec ug (r_fields rec) (fname_of_file x)) in *.
+    assert (Hwg1 : wf_uidl ug1 = true).
+    { apply with_rec_wf_fn; try assumption. exact (wf_fname_of_file _ Hwk Hwi). }
+    assert (Hkeys1 : NoDup (map r_key (u_recs us1))).
+    { unfold us1, without_rec. cbn [u_recs]. exact (nodup_map_filter _ _ _ Hkeys). }
+    (* files of the remaining uids are other files *)
+    assert (Hother : forall uid0 rec0 x0, In uid0 r -> locate us fls uid0 = Some (rec0, x0) ->
+                     m_key x0 <> m_key x).
+    { intros uid0 rec0 x0 Hin El0 E.
+      destruct (locate_spec _ _ _ _ _ El0) as [Hrec0 [Huid0 [_ Hkx0]]].
+      assert (rec0 = rec).
+      { assert (Ek : r_key rec0 = r_key rec) by congruence.
+        clear - Hkeys Hrec Hrec0 Ek. revert Hkeys Hrec Hrec0. generalize (u_recs us).
+        induction l as [|y l IH]; cbn [map In]; intros Hnd H1 H2; [contradiction|].
+        inversion Hnd as [|? ? Hy Hl]; subst.
+        destruct H1 as [->|H1], H2 as [->|H2].
+        - reflexivity.
+        - exfalso. apply Hy. rewrite <- Ek. apply in_map. exact H2.
+        - exfalso. apply Hy. rewrite Ek. apply in_map. exact H1.
+        - exact (IH Hl H1 H2). }
+      subst rec0. apply Hnotu. rewrite <- Huid, Huid0. exact Hin. }
+    set (d0 := (u_next ug, m_key x, m_info x, m_cid x)).
+    destruct (IH tmps' m3 us1 ug1 m' (done ++ [d0]) A4 (without_rec_wf _ _ Hws)
+                (without_rec_uids_ok _ _ Hoks) Hkeys1 Hndu' Hwg1 (with_rec_uids_ok _ _ _ Hokg))
+      as [u' [Hu' [Hv Hall]]].
+    + apply (view_uidl_at_new _ _ _ _ V3 Hwg1).
+    + intros uid0 rec0 x0 Hin El0.
+      assert (Hne : uid0 <> uid) by (intro E; subst; contradiction).
+      pose proof (locate_without _ _ _ _ _ _ Hne El0) as El0'.
+      pose proof (Hother _ _ _ Hin El0') as Hk0.
+      destruct (Hfls x0 (proj1 (proj2 (proj2 (locate_spec _ _ _ _ _ El0'))))) as [Hl0 _].
+      rewrite (V3 _ (live_not_junk f _ _ _ Hl0)), (V2 _ (live_not_junk f _ _ _ Hl0)).
+      destruct (path_eqb (PCtl g CUidl) _) eqn:E1; [apply path_eqb_eq in E1; discriminate E1|].
+      destruct (path_eqb (PCtl f CUidl) _) eqn:E2; [apply path_eqb_eq in E2; discriminate E2|].
+      rewrite Hl1.
+      destruct (path_eqb (PMsg g s (m_key x) (m_info x)) _) eqn:E3.
+      { apply path_eqb_eq in E3. inversion E3; subst. exfalso. exact (Hfg eq_refl). }
+      destruct (path_eqb (PMsg f (m_sub x) (m_key x) (m_info x)) _) eqn:E4.
+      { apply path_eqb_eq in E4. inversion E4. congruence. }
+      apply (Hsrc uid0 rec0 x0 (or_intror Hin) El0').
+    + intros d Hin. apply in_app_or in Hin as [Hin|[<-|[]]].
+      * destruct d as [[[uid0 k] i] c]. destruct (Hd _ Hin) as [Hr [s0 [Hs0 Hl0]]]. split.
+        -- exact (with_rec_recorded_old _ _ _ _ _ Hokg Hr).
+        -- exists s0. split; [exact Hs0|].
+           rewrite (V3 _ (live_not_junk g _ _ _ Hs0)), (V2 _ (live_not_junk g _ _ _ Hs0)).
+           destruct (path_eqb (PCtl g CUidl) _) eqn:E1; [apply path_eqb_eq in E1; discriminate E1|].
+           destruct (path_eqb (PCtl f CUidl) _) eqn:E2; [apply path_eqb_eq in E2; discriminate E2|].
+           rewrite Hl1.
+           destruct (path_eqb (PMsg g s (m_key x) (m_info x)) _) eqn:E3.
+           { apply path_eqb_eq in E3. injection E3 as _ Ek _. exfalso.
+             apply (Hdk _ uid rec x Hin (or_introl eq_refl) El). cbn [fst snd]. symmetry. exact Ek. }
+           destruct (path_eqb (PMsg f (m_sub x) (m_key x) (m_info x)) _) eqn:E4; [|exact Hl0].
+           apply path_eqb_eq in E4. inversion E4; subst. exfalso. exact (Hfg eq_refl).
+      * split.
+        -- exists {| r_uid := u_next ug; r_fields := r_fields rec; r_fname := fname_of_file x |}.
+           split; [unfold ug1; rewrite (with_rec_recs _ _ _ Hokg); apply in_or_app; right; left;
+                   reflexivity|].
+           split; [reflexivity|]. unfold r_key. cbn [r_fname]. exact (r_key_fname_of_file _ Hwk).
+        -- exists s. split; [exact Hs|].
+           rewrite (V3 _ (live_not_junk g _ _ _ Hs)), (V2 _ (live_not_junk g _ _ _ Hs)).
+           destruct (path_eqb (PCtl g CUidl) _) eqn:E1; [apply path_eqb_eq in E1; discriminate E1|].
+           destruct (path_eqb (PCtl f CUidl) _) eqn:E2; [apply path_eqb_eq in E2; discriminate E2|].
+           rewrite Hl1, path_eqb_refl. reflexivity.
+    + intros d uid0 rec0 x0 Hin Hu0 El0.
+      assert (Hne : uid0 <> uid) by (intro E; subst; contradiction).
+      pose proof (locate_without _ _ _ _ _ _ Hne El0) as El0'.
+      apply in_app_or in Hin as [Hin|[<-|[]]].
+      * exact (Hdk d uid0 rec0 x0 Hin (or_intror Hu0) El0').
+      * unfold d0. cbn [fst snd]. intro E. exact (Hother _ _ _ Hu0 El0' (eq_sym E)).
+    + exists u'. split; [exact Hu'|]. split; [rewrite Hv; reflexivity|].
+      intros d Hin. apply Hall. rewrite <- app_assoc. exact Hin.
+Qed.
+
+(* ---- STORE: every addressed message carries the new flags *)
+Lemma locate_keys_distinct u fls uid1 uid2 rec1 x1 rec2 x2 :
+  NoDup (map r_key (u_recs u)) -> uid1 <> uid2 ->
+  locate u fls uid1 = Some (rec1, x1) -> locate u fls uid2 = Some (rec2, x2) ->
+  m_key x1 <> m_key x2.
+Proof.
+  intros Hk Hne E1 E2 E.
+  destruct (locate_spec _ _ _ _ _ E1) as [Hr1 [Hu1 [_ Hk1]]].
+  destruct (locate_spec _ _ _ _ _ E2) as [Hr2 [Hu2 [_ Hk2]]].
+  assert (rec1 = rec2).
+  { assert (Ek : r_key rec1 = r_key rec2) by congruence.
+    clear - Hk Hr1 Hr2 Ek. revert Hk Hr1 Hr2. generalize (u_recs u).
+    induction l as [|y l IH]; cbn [map In]; intros Hnd H1 H2; [contradiction|].
+    inversion Hnd as [|? ? Hy Hl]; subst.
+    destruct H1 as [->|H1], H2 as [->|H2].
+    - reflexivity.
+    - exfalso. apply Hy. rewrite Ek. apply in_map. exact H2.
+    - exfalso. apply Hy. rewrite <- Ek. apply in_map. exact H1.
+    - exact (IH Hl H1 H2). }
+  subst. congruence.
+Qed.
+
+Lemma store_done lay f u fls mode letters : files_ok fls -> NoDup (map r_key (u_recs u)) ->
+  forall uids m m', NoDup uids ->
+  apply_ops lay m (store_ops f u fls mode letters uids) = (m', true) ->
+  (forall uid rec x, In uid uids -> locate u fls uid = Some (rec, x) ->
+     lookup m (PMsg f (m_sub x) (m_key x) (m_info x)) = Some (File (Opaque (m_cid x)))) ->
+  lookup m' (PCtl f CUidl) = lookup m (PCtl f CUidl)
+  /\ (forall uid rec x, In uid uids -> locate u fls uid = Some (rec, x) ->
+        lookup m' (PMsg f (m_sub x) (m_key x) (new_info mode letters (m_info x)))
+        = Some (File (Opaque (m_cid x))))
+  /\ (forall g s k i, live s = true ->
+        (forall uid rec x, In uid uids -> locate u fls uid = Some (rec, x) -> m_key x <> k) ->
+        lookup m' (PMsg g s k i) = lookup m (PMsg g s k i)).
+Proof.
+  intros Hfls Hkeys. induction uids as [|uid r IH]; intros m m' Hnd A Hsrc.
+  - cbn in A. injection A as <-. split; [reflexivity|]. split; [intros ? ? ? []|reflexivity].
+  - apply NoDup_cons_iff in Hnd as [Hnot Hnd'].
+    unfold store_ops in A. cbn [flat_map] in A. fold (store_ops f u fls mode letters r) in A.
+    destruct (locate u fls uid) as [[rec x]|] eqn:El.
+    2:{ cbn [app] in A. destruct (IH m m' Hnd' A (fun uid0 rec0 x0 Hin => Hsrc uid0 rec0 x0 (or_intror Hin)))
+          as [H1 [H2 H3]].
+        split; [exact H1|]. split.
+        - intros uid0 rec0 x0 [<-|Hin] El0; [congruence|exact (H2 _ _ _ Hin El0)].
+        - intros g s k i Hs Hk. apply H3; [exact Hs|]. intros uid0 rec0 x0 Hin. apply Hk. right. exact Hin. }
+    destruct (bytes_eqb (new_info mode letters (m_info x)) (m_info x)) eqn:Eb.
+    + (* flags unchanged: no operation *)
+      apply bytes_eqb_eq in Eb. cbn [app] in A.
+      destruct (IH m m' Hnd' A (fun uid0 rec0 x0 Hin => Hsrc uid0 rec0 x0 (or_intror Hin)))
+        as [H1 [H2 H3]].
+      split; [exact H1|]. split.
+      * intros uid0 rec0 x0 [<-|Hin] El0; [|exact (H2 _ _ _ Hin El0)].
+        rewrite El in El0. injection El0 as <- <-. rewrite Eb.
+        destruct (Hfls x (proj1 (proj2 (proj2 (locate_spec _ _ _ _ _ El))))) as [Hlx _].
+        rewrite H3; [exact (Hsrc uid rec x (or_introl eq_refl) El)|exact Hlx|].
+        intros uid0 rec0 x0 Hin El0.
+        eapply (locate_keys_distinct u fls uid0 uid); [exact Hkeys| |exact El0|exact El].
+        intro E. subst. contradiction.
+      * intros g s k i Hs Hk. apply H3; [exact Hs|]. intros uid0 rec0 x0 Hin. apply Hk. right. exact Hin.
+    + cbn [app apply_ops] in A.
+      set (i' := new_info mode letters (m_info x)) in *.
+      destruct (apply_op lay m (ORename (PMsg f (m_sub x) (m_key x) (m_info x))
+                                        (PMsg f (m_sub x) (m_key x) i'))) as [m1|] eqn:A1;
+        [|discriminate].
+      destruct (apply_rename _ _ _ _ _ A1) as [c0 [Hc0 Hl1]].
+      rewrite (Hsrc uid rec x (or_introl eq_refl) El) in Hc0. injection Hc0 as <-.
+      destruct (Hfls x (proj1 (proj2 (proj2 (locate_spec _ _ _ _ _ El))))) as [Hlx _].
+      assert (Hother : forall uid0 rec0 x0, In uid0 r -> locate u fls uid0 = Some (rec0, x0) ->
+                       m_key x0 <> m_key x).
+      { intros uid0 rec0 x0 Hin El0.
+        eapply (locate_keys_distinct u fls uid0 uid); [exact Hkeys| |exact El0|exact El].
+        intro E. subst. contradiction. }
+      destruct (IH m1 m' Hnd' A) as [H1 [H2 H3]].
+      { intros uid0 rec0 x0 Hin El0. rewrite Hl1.
+        destruct (path_eqb (PMsg f (m_sub x) (m_key x) i') _) eqn:E1.
+        { apply path_eqb_eq in E1. injection E1 as _ Ek _. exfalso.
+          exact (Hother _ _ _ Hin El0 (eq_sym Ek)). }
+        destruct (path_eqb (PMsg f (m_sub x) (m_key x) (m_info x)) _) eqn:E2.
+        { apply path_eqb_eq in E2. injection E2 as _ Ek _. exfalso.
+          exact (Hother _ _ _ Hin El0 (eq_sym Ek)). }
+        exact (Hsrc uid0 rec0 x0 (or_intror Hin) El0). }
+      split; [rewrite H1, Hl1; reflexivity|]. split.
+      * intros uid0 rec0 x0 [<-|Hin] El0; [|exact (H2 _ _ _ Hin El0)].
+        rewrite El in El0. injection El0 as <- <-.
+        rewrite H3; [rewrite Hl1, path_eqb_refl; reflexivity|exact Hlx|].
+        intros uid0 rec0 x0 Hin El0. exact (Hother _ _ _ Hin El0).
+      * intros g s k i Hs Hk. rewrite H3; [|exact Hs|].
+        -- rewrite Hl1.
+           destruct (path_eqb (PMsg f (m_sub x) (m_key x) i') (PMsg g s k i)) eqn:E1.
+           { apply path_eqb_eq in E1. injection E1 as _ _ Ek _. exfalso.
+             exact (Hk uid rec x (or_introl eq_refl) El Ek). }
+           destruct (path_eqb (PMsg f (m_sub x) (m_key x) (m_info x)) (PMsg g s k i)) eqn:E2;
+             [|reflexivity].
+           apply path_eqb_eq in E2. injection E2 as _ _ Ek _. exfalso.
+           exact (Hk uid rec x (or_introl eq_refl) El Ek).
+        -- intros uid0 rec0 x0 Hin. apply Hk. right. exact Hin.
+Qed.
+
+(* ---- CREATE and SUBSCRIBE *)
+Lemma create_done lay m f val guid tmp m' :
+  apply_ops lay m ([OMkdir (PDir f); OMkdir (PSub f STmp); OMkdir (PSub f SNew);
+                    OMkdir (PSub f SCur); OCreat (PCtl f CMdf)]
+                   ++ locked_rewrite f tmp {| u_val := val; u_next := 1; u_guid := guid;
+                                              u_recs := [] |}) = (m', true) ->
+  wf_guid guid = true ->
+  folder_ok m' f = true
+  /\ uidl_at m' f {| u_val := val; u_next := 1; u_guid := guid; u_recs := [] |}.
+Proof.
+  intros A Hg. destruct (apply_ops_split _ _ _ _ _ A) as [m5 [A5 A6]].
+  pose proof (locked_rewrite_view _ _ _ _ _ _ A6) as V.
+  cbn [apply_ops] in A5.
+  destruct (apply_op lay m (OMkdir (PDir f))) as [a1|] eqn:A1; [|discriminate].
+  destruct (apply_op lay a1 (OMkdir (PSub f STmp))) as [a2|] eqn:A2; [|discriminate].
+  destruct (apply_op lay a2 (OMkdir (PSub f SNew))) as [a3|] eqn:A3; [|discriminate].
+  destruct (apply_op lay a3 (OMkdir (PSub f SCur))) as [a4|] eqn:A4; [|discriminate].
+  destruct (apply_op lay a4 (OCreat (PCtl f CMdf))) as [a5|] eqn:A5'; [|discriminate].
+  injection A5 as <-.
+  assert (Hdir : forall a p a', apply_op lay a (OMkdir p) = Some a' -> lookup a' p = Some Dir).
+  { intros a p a' H. cbn [apply_op] in H.
+    destruct (is_dir_path p && negb (exists_ a p) && parent_ok a p); [|discriminate].
+    injection H as <-. rewrite lookup_add, path_eqb_refl. reflexivity. }
+  assert (E1 : lookup a5 (PDir f) = Some Dir).
+  { rewrite (apply_op_frame _ _ _ _ (PDir f) A5') by (cbn; intro E; discriminate E).
+    rewrite (apply_op_frame _ _ _ _ (PDir f) A4) by (cbn; intro E; discriminate E).
+    rewrite (apply_op_frame _ _ _ _ (PDir f) A3) by (cbn; intro E; discriminate E).
+    rewrite (apply_op_frame _ _ _ _ (PDir f) A2) by (cbn; intro E; discriminate E).
+    exact (Hdir _ _ _ A1). }
+  assert (E2 : lookup a5 (PSub f STmp) = Some Dir).
+  { rewrite (apply_op_frame _ _ _ _ (PSub f STmp) A5') by (cbn; intro E; discriminate E).
+    rewrite (apply_op_frame _ _ _ _ (PSub f STmp) A4) by (cbn; intro E; discriminate E).
+    rewrite (apply_op_frame _ _ _ _ (PSub f STmp) A3) by (cbn; intro E; discriminate E).
+    exact (Hdir _ _ _ A2). }
+  assert (E3 : lookup a5 (PSub f SNew) = Some Dir).
+  { rewrite (apply_op_frame _ _ _ _ (PSub f SNew) A5') by (cbn; intro E; discriminate E).
+    rewrite (apply_op_frame _ _ _ _ (PSub f SNew) A4) by (cbn; intro E; discriminate E).
+    exact (Hdir _ _ _ A3). }
+  assert (E4 : lookup a5 (PSub f SCur) = Some Dir).
+  { rewrite (apply_op_frame _ _ _ _ (PSub f SCur) A5') by (cbn; intro E; discriminate E).
+    exact (Hdir _ _ _ A4). }
+  split.
+  - unfold folder_ok, exists_.
+    rewrite (V (PDir f) eq_refl), (V (PSub f SNew) eq_refl), (V (PSub f SCur) eq_refl),
+      (V (PSub f STmp) eq_refl). cbn [path_eqb]. rewrite E1, E2, E3, E4. reflexivity.
+  - apply (view_uidl_at_new _ _ _ _ V). unfold wf_uidl. cbn [u_guid u_recs forallb nodup_uids].
+    unfold wf_guid in Hg. destruct guid; [discriminate|]. rewrite Hg. reflexivity.
+Qed.
+
+Lemma subs_done lay m names tmp m' :
+  apply_ops lay m ([OCreat (PCtl [] CSubsLock)] ++ subs_ops names tmp
+                   ++ [OUnlink (PCtl [] CSubsLock)]) = (m', true) ->
+  wf_subs names = true -> recover_subs m' = names.
+Proof.
+  unfold subs_ops. cbn [app apply_ops]. intros A Hw.
+  destruct (apply_op lay m (OCreat (PCtl [] CSubsLock))) as [a1|] eqn:A1; [|discriminate].
+  destruct (apply_op lay a1 (OCreat (PTmp [] tmp))) as [a2|] eqn:A2; [|discriminate].
+  destruct (apply_op lay a2 (OWrite (PTmp [] tmp) (Text (print_subs names)))) as [a3|] eqn:A3;
+    [|discriminate].
+  destruct (apply_op lay a3 (ORename (PTmp [] tmp) (PCtl [] CSubs))) as [a4|] eqn:A4; [|discriminate].
+  destruct (apply_op lay a4 (OUnlink (PCtl [] CSubsLock))) as [a5|] eqn:A5; [|discriminate].
+  injection A as <-. unfold recover_subs.
+  rewrite (apply_op_frame _ _ _ _ (PCtl [] CSubs) A5) by (cbn; intro E; discriminate E).
+  destruct (apply_rename _ _ _ _ _ A4) as [c [Hc Hl]]. rewrite Hl, path_eqb_refl.
+  cbn [apply_op] in A3. destruct (lookup a2 (PTmp [] tmp)) as [[|c0]|] eqn:E; try discriminate.
+  injection A3 as <-. rewrite (lookup_replace _ _ _ _ _ E), path_eqb_refl in Hc.
+  injection Hc as <-. exact (subs_roundtrip _ Hw).
+Qed.
+
+Lemma view_serves m m1 f v uid k fl c :
+  same_view m m1 -> serves m f v uid k fl c -> serves m1 f v uid k fl c.
+Proof.
+  intros V [u [i [Hu [Hv [Hr [Hf Hfl]]]]]]. exists u, i.
+  split; [apply (view_uidl_at _ _ f u V); exact Hu|]. split; [exact Hv|]. split; [exact Hr|].
+  split; [apply (view_file_at _ _ f k i c V); exact Hf|exact Hfl].
+Qed.
+
+Lemma tail_ops_scratch sel used : forallb scratch (tail_ops sel used) = true.
+Proof.
+  unfold tail_ops. destruct sel as [[s ro]|]; [|reflexivity].
+  destruct used as [f|]; [destruct (fname_eqb f s)|]; reflexivity.
+Qed.
+
+Lemma dest_sub_live sel g : live (dest_sub sel g) = true.
+Proof. unfold dest_sub. destruct sel as [[s0 [|]]|]; try reflexivity.
+  destruct (fname_eqb s0 g); reflexivity. Qed.
+
+(* ================ acknowledged commands, as Ops.run_cmd issues them ===== *)
+(* APPEND answered OK (all its operations done): each message is served under
+   the announced uid with the requested flags and its content *)
+Theorem cmd_append_acked lay m sel f msgs m' :
+  Inv m -> let o := run_cmd lay m sel (CAppend f msgs) in
+  o_ack o = AOk -> apply_ops lay m (o_ops o) = (m', true) ->
+  exists u, uidl_at m f u /\
+    forall d, In d (append_delivers u msgs) ->
+    let '(uid, k, i, c) := d in serves m' f (u_val u) uid k (flags_of_info i) c.
+Proof.
+  intros I. cbn [run_cmd].
+  destruct (negb (exists_ m (PDir f))); [cbn; discriminate|].
+  destruct (ready m f) as [u|] eqn:Er; [|cbn; discriminate].
+  destruct (keys_ok m (map a_key msgs) && forallb wf_amsg msgs) eqn:Eg; [|cbn; discriminate].
+  apply andb_true_iff in Eg as [Hk Hw]. destruct (keys_ok_sound _ _ Hk) as [_ Hnd].
+  cbn [o_ack o_ops]. intros _ A.
+  destruct (apply_ops_split _ _ _ _ _ A) as [m1 [A1 A']].
+  destruct (apply_ops_split _ _ _ _ _ A') as [m2 [A2 A3]].
+  pose proof (scratch_ops_view lay _ (reset_ops_scratch f) _ _ A1) as V1.
+  pose proof (scratch_ops_view lay _ (tail_ops_scratch _ _) _ _ A3) as V3.
+  pose proof (ready_uidl_at _ _ _ Er) as Hu. exists u. split; [exact Hu|].
+  intros d Hd.
+  assert (I1 : Inv m1).
+  { apply (run_inv lay m (reset_ops f) m1 I). apply legal_ops_b_run; [|exact A1].
+    exact (static_ops_legal _ _ _ (scratch_list_static lay _ (reset_ops_scratch f)) I). }
+  pose proof (append_acked_served lay f _ msgs m1 u m2 (dest_sub_live sel f) I1
+                (proj2 (view_uidl_at _ _ f u V1) Hu) A2
+                (fun a Ha => forallb_In _ _ Hw a Ha) Hnd d Hd) as S.
+  destruct d as [[[uid k] i] c]. exact (view_serves _ _ _ _ _ _ _ _ V3 S).
+Qed.
+
+(* COPY answered OK: each copied message is served in the destination with
+   the source's flags and content *)
+Theorem cmd_copy_acked lay m f ro uids g names m' :
+  Inv m -> let o := run_cmd lay m (Some (f, ro)) (CCopy uids g names) in
+  o_ack o = AOk -> apply_ops lay m (o_ops o) = (m', true) ->
+  exists us ug, uidl_at m f us /\ uidl_at m g ug /\
+    forall d, In d (copy_delivers us (files_of m f) ug uids names) ->
+    let '(uid, k, i, c) := d in
+    u_next ug <= uid /\ serves m' g (u_val ug) uid k (flags_of_info i) c.
+Proof.
+  intros I. cbn [run_cmd].
+  destruct (ready m f) as [us|] eqn:Ef; [|cbn; discriminate].
+  destruct (negb (exists_ m (PDir g))); [cbn; discriminate|].
+  destruct (ready m g) as [ug|] eqn:Eg; [|cbn; discriminate].
+  destruct (keys_ok m (map fst names)) eqn:Ek; [|cbn; discriminate].
+  destruct (keys_ok_sound _ _ Ek) as [Hku Hnd]. cbn [o_ack o_ops]. intros _ A.
+  destruct (apply_ops_split _ _ _ _ _ A) as [m1 [A1 A']].
+  destruct (apply_ops_split _ _ _ _ _ A') as [m2 [A2 A3]].
+  pose proof (scratch_ops_view lay _ (reset_ops_scratch f) _ _ A1) as V1.
+  pose proof (scratch_ops_view lay _ (reset_ops_scratch g) _ _ A2) as V2.
+  pose proof (same_view_trans _ _ _ V1 V2) as V.
+  pose proof (ready_uidl_at _ _ _ Ef) as Hus. pose proof (ready_uidl_at _ _ _ Eg) as Hug.
+  exists us, ug. split; [exact Hus|]. split; [exact Hug|].
+  destruct (inv_uidl_text _ _ _ I Hus) as [_ [Hws _]].
+  destruct (inv_uidl_text _ _ _ I Hug) as [_ [Hwg Hokg]].
+  destruct (copy_done lay g (dest_sub (Some (f, ro)) g) us (files_of m f) (dest_sub_live _ _) Hws
+              (files_of_ok _ _ I) uids names m2 ug m' [] A3 Hwg Hokg
+              (proj2 (view_uidl_at _ _ g ug V) Hug)
+              (fun kn Hkn => proj2 (Hku (fst kn) (in_map fst _ _ Hkn))) Hnd)
+    as [ug' [Hu' [Hv Hall]]]; [intros ? []|intros ? ? []|].
+  intros d Hd. destruct d as [[[uid k] i] c]. split.
+  - clear - Hd Hokg. revert ug Hokg Hd. generalize names.
+    induction uids as [|u0 r IH]; intros nm ug Hokg Hd; cbn [copy_delivers] in Hd; [destruct Hd|].
+    destruct (locate us (files_of m f) u0) as [[rec x]|]; [|exact (IH nm ug Hokg Hd)].
+    destruct nm as [|[key tmp] nm']; [destruct Hd|].
+    destruct Hd as [E|Hd]; [injection E as <- _ _ _; apply N.le_refl|].
+    specialize (IH nm' _ (with_rec_uids_ok _ _ _ Hokg) Hd). unfold with_rec in IH at 1.
+    cbn [u_next] in IH. lia.
+  - rewrite <- Hv. exact (delivered_serves _ _ _ _ _ _ _ Hu' (Hall _ Hd)).
+Qed.
+
+Lemma located_file m f us uid rec x : Inv m -> locate us (files_of m f) uid = Some (rec, x) ->
+  lookup m (PMsg f (m_sub x) (m_key x) (m_info x)) = Some (File (Opaque (m_cid x)))
+  /\ live (m_sub x) = true.
+Proof.
+  intros I El. destruct (locate_spec _ _ _ _ _ El) as [_ [_ [Hx _]]].
+  destruct (files_of_lookup _ _ _ I Hx) as [H1 [H2 _]]. split; assumption.
+Qed.
+
+(* MOVE (to another mailbox) answered OK: each moved message is served in the
+   destination with its flags and content.  The source uid list is assumed to
+   name each file once, and the uids of the command to be distinct. *)
+Theorem cmd_move_acked lay m f uids g tmps m' :
+  Inv m -> f <> g -> NoDup uids ->
+  let o := run_cmd lay m (Some (f, false)) (CMove uids g tmps) in
+  o_ack o = AOk -> apply_ops lay m (o_ops o) = (m', true) ->
+  exists us ug, uidl_at m f us /\ uidl_at m g ug /\
+    (NoDup (map r_key (u_recs us)) ->
+     forall d, In d (move_delivers us (files_of m f) ug uids tmps) ->
+     let '(uid, k, i, c) := d in serves m' g (u_val ug) uid k (flags_of_info i) c).
+Proof.
+  intros I Hfg Hndu. cbn [run_cmd].
+  destruct (ready m f) as [us|] eqn:Ef; [|cbn; discriminate].
+  destruct (negb (exists_ m (PDir g))); [cbn; discriminate|].
+  destruct (fname_eqb f g) eqn:Efg.
+  { apply fname_eqb_eq in Efg. contradiction. }
+  destruct (ready m g) as [ug|] eqn:Eg; [|cbn; discriminate].
+  cbn [o_ack o_ops]. intros _ A.
+  destruct (apply_ops_split _ _ _ _ _ A) as [m1 [A1 A']].
+  destruct (apply_ops_split _ _ _ _ _ A') as [m2 [A2 A3]].
+  pose proof (scratch_ops_view lay _ (reset_ops_scratch f) _ _ A1) as V1.
+  pose proof (scratch_ops_view lay _ (reset_ops_scratch g) _ _ A2) as V2.
+  pose proof (same_view_trans _ _ _ V1 V2) as V.
+  pose proof (ready_uidl_at _ _ _ Ef) as Hus. pose proof (ready_uidl_at _ _ _ Eg) as Hug.
+  exists us, ug. split; [exact Hus|]. split; [exact Hug|]. intros Hkeys d Hd.
+  destruct (inv_uidl_text _ _ _ I Hus) as [_ [Hws Hoks]].
+  destruct (inv_uidl_text _ _ _ I Hug) as [_ [Hwg Hokg]].
+  destruct (move_done lay f g (dest_sub (Some (f, false)) g) (files_of m f) (dest_sub_live _ _) Hfg
+              (files_of_ok _ _ I) uids tmps m2 us ug m' [] A3 Hws Hoks Hkeys Hndu Hwg Hokg
+              (proj2 (view_uidl_at _ _ g ug V) Hug))
+    as [ug' [Hu' [Hv Hall]]].
+  - intros uid rec x _ El. destruct (located_file _ _ _ _ _ _ I El) as [Hl Hs].
+    rewrite (V _ (live_not_junk f _ _ _ Hs)). exact Hl.
+  - intros ? [].
+  - intros ? ? ? ? [].
+  - destruct d as [[[uid k] i] c]. rewrite <- Hv.
+    exact (delivered_serves _ _ _ _ _ _ _ Hu' (Hall _ Hd)).
+Qed.
+
+(* STORE answered OK: each addressed message that exists is served with the
+   new flags, same uid and content *)
+Theorem cmd_store_acked lay m f uids mode letters m' :
+  Inv m -> NoDup uids ->
+  let o := run_cmd lay m (Some (f, false)) (CStore uids mode letters) in
+  o_ack o = AOk -> apply_ops lay m (o_ops o) = (m', true) ->
+  exists u, uidl_at m f u /\
+    (NoDup (map r_key (u_recs u)) ->
+     forall uid rec x, In uid uids -> locate u (files_of m f) uid = Some (rec, x) ->
+     serves m' f (u_val u) uid (m_key x)
+            (flags_of_info (new_info mode letters (m_info x))) (m_cid x)).
+Proof.
+  intros I Hndu. cbn [run_cmd].
+  destruct (ready m f) as [u|] eqn:Ef; [|cbn; discriminate].
+  cbn [o_ack o_ops]. intros _ A.
+  destruct (apply_ops_split _ _ _ _ _ A) as [m1 [A1 A2]].
+  pose proof (scratch_ops_view lay _ (reset_ops_scratch f) _ _ A1) as V1.
+  pose proof (ready_uidl_at _ _ _ Ef) as Hu. exists u. split; [exact Hu|].
+  intros Hkeys uid rec x Hin El.
+  destruct (store_done lay f u (files_of m f) mode letters (files_of_ok _ _ I) Hkeys uids m1 m'
+              Hndu A2) as [HU [HF _]].
+  - intros uid0 rec0 x0 _ El0. destruct (located_file _ _ _ _ _ _ I El0) as [Hl Hs].
+    rewrite (V1 _ (live_not_junk f _ _ _ Hs)). exact Hl.
+  - destruct (locate_spec _ _ _ _ _ El) as [Hrec [Huid [Hx Hkx]]].
+    destruct (located_file _ _ _ _ _ _ I El) as [_ Hs].
+    exists u, (new_info mode letters (m_info x)).
+    split; [destruct Hu as [t [H1 H2]]; exists t; split;
+            [rewrite HU, (V1 (PCtl f CUidl) eq_refl); exact H1|exact H2]|].
+    split; [reflexivity|]. split; [exists rec; repeat split; [exact Hrec|exact Huid|symmetry; exact Hkx]|].
+    split; [|reflexivity]. exists (m_sub x). split; [exact Hs|]. exact (HF uid rec x Hin El).
+Qed.
+
+(* CREATE answered OK: the mailbox exists with an empty uid list of the drawn
+   UIDVALIDITY; SUBSCRIBE answered OK: the name is in the subscriptions file *)
+Theorem cmd_create_acked lay m sel f val guid tmp m' :
+  let o := run_cmd lay m sel (CCreate f val guid tmp) in
+  o_ack o = AOk -> apply_ops lay m (o_ops o) = (m', true) ->
+  folder_ok m' f = true
+  /\ uidl_at m' f {| u_val := val; u_next := 1; u_guid := guid; u_recs := [] |}.
+Proof.
+  cbn [run_cmd]. destruct f as [|f0 fr]; [cbn; discriminate|].
+  destruct (exists_ m (PDir (f0 :: fr)) || negb (parent_exists lay m (f0 :: fr))
+            || exists_ m (PCtl (f0 :: fr) CUidl) || negb (wf_guid guid)) eqn:Eg; [cbn; discriminate|].
+  apply orb_false_iff in Eg as [_ Hg]. apply negb_false_iff in Hg.
+  cbn [o_ack o_ops]. intros _ A. rewrite app_assoc in A.
+  destruct (apply_ops_split _ _ _ _ _ A) as [m1 [A1 A2]].
+  pose proof (scratch_ops_view lay _ (tail_ops_scratch _ _) _ _ A2) as V.
+  destruct (create_done _ _ _ _ _ _ _ A1 Hg) as [H1 H2]. split.
+  - unfold folder_ok, exists_ in *.
+    rewrite (V (PDir (f0 :: fr)) eq_refl), (V (PSub (f0 :: fr) SNew) eq_refl),
+      (V (PSub (f0 :: fr) SCur) eq_refl), (V (PSub (f0 :: fr) STmp) eq_refl). exact H1.
+  - apply (view_uidl_at _ _ _ _ V). exact H2.
+Qed.
+
+Theorem cmd_subscribe_acked lay m sel n tmp m' :
+  let o := run_cmd lay m sel (CSubscribe n tmp) in
+  apply_ops lay m (o_ops o) = (m', true) ->
+  wf_subs (add_name n (recover_subs m)) = true ->
+  recover_subs m' = add_name n (recover_subs m).
+Proof.
+  cbn [run_cmd o_ops]. intros A Hw. rewrite !app_assoc in A.
+  destruct (apply_ops_split _ _ _ _ _ A) as [m1 [A1 A2]].
+  pose proof (scratch_ops_view lay _ (tail_ops_scratch _ _) _ _ A2) as V.
+  unfold recover_subs at 1. rewrite (V (PCtl [] CSubs) eq_refl).
+  rewrite <- !app_assoc in A1. exact (subs_done _ _ _ _ _ A1 Hw).
+Qed.
+
+(* ---- APPEND killed at any point *)
 (* the only keys the operations of an APPEND touch are its own *)
 Lemma append_ops_touches f s u msgs o key :
   In o (append_ops f s u msgs) -> touches o key -> In key (map a_key msgs).
@@ -303,180 +1979,74 @@ Qed.
 (* APPEND of any number of messages, killed after any number k of its
    operations: the invariant holds and every message served before — in any
    folder — is still served with the same validity, uid, flags and content *)
+Theorem append_ops_legal lay f s msgs m u :
+  live s = true -> Inv m -> uidl_at m f u ->
+  (forall a, In a msgs -> key_unused m (a_key a) /\ wf_amsg a = true) ->
+  NoDup (map a_key msgs) ->
+  legal_ops_b lay m (append_ops f s u msgs) = true.
+Proof.
+  intros Hs I Hu Hm Hnd. rewrite <- (app_nil_r (append_ops f s u msgs)).
+  apply append_core; try assumption. reflexivity.
+Qed.
+
+Lemma moved_names_static lay l f :
+  (forall o, In o l -> forall a b, o <> ORenameDir a b) -> moved_names lay l f = f.
+Proof.
+  revert f. induction l as [|o l IH]; intros f H; [reflexivity|]. cbn [moved_names fold_left].
+  assert (E : moved_name lay o f = f).
+  { destruct o; try reflexivity. exfalso. exact (H _ (or_introl eq_refl) _ _ eq_refl). }
+  rewrite E. apply IH. intros o' Ho'. apply H. right. exact Ho'.
+Qed.
+
+Lemma append_ops_no_renamedir f s u msgs o :
+  In o (append_ops f s u msgs) -> forall a b, o <> ORenameDir a b.
+Proof.
+  revert u. induction msgs as [|a r IH]; intros u Hin; [destruct Hin|].
+  cbn [append_ops] in Hin. unfold add_ops, locked_rewrite, rewrite_ops, lock_op, unlock_op in Hin.
+  cbn [app In] in Hin.
+  repeat (destruct Hin as [<-|Hin]; [intros ? ? E; discriminate E|]).
+  exact (IH _ Hin).
+Qed.
+
 Theorem append_crash_safe lay f s msgs m u k :
-  live s = true -> Inv m ->
-  lookup m (PCtl f CUidl) = Some (File (Text (print_uidl u))) ->
-  wf_uidl u = true -> uids_ok u ->
+  live s = true -> Inv m -> uidl_at m f u ->
   (forall a, In a msgs -> key_unused m (a_key a) /\ wf_amsg a = true) ->
   NoDup (map a_key msgs) ->
   let mk := after_crash lay m (append_ops f s u msgs) k in
   Inv mk /\ (forall g v uid key fl c, serves m g v uid key fl c -> serves mk g v uid key fl c).
 Proof.
-  intros Hs I Hu Hw Hok Hm Hnd mk.
-  pose proof (append_ops_legal lay f s msgs Hs m u Hu Hw Hok Hm Hnd) as HL.
+  intros Hs I Hu Hm Hnd mk.
+  pose proof (append_ops_legal lay f s msgs m u Hs I Hu Hm Hnd) as HL.
   split; [exact (crash_inv _ _ _ _ I HL)|].
-  intros g v uid key fl c S. apply (crash_serves _ _ _ _ _ _ _ _ _ _ HL S).
-  intro T. apply Exists_exists in T as [o [Ho Ht]].
-  assert (Hin : In o (append_ops f s u msgs)).
-  { unfold crash in Ho. rewrite <- (firstn_skipn k (append_ops f s u msgs)).
-    apply in_or_app. left. exact Ho. }
-  pose proof (append_ops_touches _ _ _ _ _ _ Hin Ht) as Hk.
-  apply in_map_iff in Hk as [a [Ea Ha]]. destruct (Hm a Ha) as [HK _].
-  destruct S as [u0 [i [_ [_ [_ [[s0 [Hs0 Hl0]] _]]]]]].
-  rewrite Ea in HK. rewrite (HK _ _ _ Hs0) in Hl0. discriminate.
+  intros g v uid key fl c S.
+  rewrite <- (moved_names_static lay (executed lay m (append_ops f s u msgs) k) g).
+  - apply (crash_serves _ _ _ _ _ _ _ _ _ _ HL S).
+    intro T. apply Exists_exists in T as [o [Ho Ht]].
+    assert (Hin : In o (append_ops f s u msgs)).
+    { unfold crash in Ho. rewrite <- (firstn_skipn k (append_ops f s u msgs)).
+      apply in_or_app. left. exact Ho. }
+    pose proof (append_ops_touches _ _ _ _ _ _ Hin Ht) as Hk.
+    apply in_map_iff in Hk as [a [Ea Ha]]. destruct (Hm a Ha) as [HK _].
+    destruct S as [u0 [i [_ [_ [_ [[s0 [Hs0 Hl0]] _]]]]]].
+    rewrite Ea in HK. rewrite (HK _ _ _ Hs0) in Hl0. discriminate.
+  - intros o Ho. apply (append_ops_no_renamedir f s u msgs).
+    pose proof (executed_sub _ _ _ _ _ Ho) as Hin. unfold crash in Hin.
+    rewrite <- (firstn_skipn k (append_ops f s u msgs)). apply in_or_app. left. exact Hin.
 Qed.
 
-(* ---- what a completed APPEND leaves: every message recorded under the next
-   uids, its file delivered with the requested flags and content *)
 
-Lemma live_not_tmp s : live s = true -> s <> STmp.
-Proof. intros H E. subst. discriminate H. Qed.
+(* ---- the file of a message under any history and kill point *)
+Theorem hist_move_file_conserved lay m sel h k key :
+  Inv m ->
+  (exists f i c, file_at m f key i c) ->
+  (forall o, In o (hist_ops lay m sel h) ->
+     forall s f i, o <> OUnlink (PMsg f s key i) \/ live s = false) ->
+  exists f i c, file_at (after_crash lay m (hist_ops lay m sel h) k) f key i c.
+Proof. intro I. exact (move_file_conserved lay m _ k key I (hist_ops_legal lay h m sel I)). Qed.
 
-Lemma append_ops_apply lay f s : live s = true -> forall msgs m u m',
-  apply_ops lay m (append_ops f s u msgs) = (m', true) ->
-  NoDup (map a_key msgs) ->
-  lookup m (PCtl f CUidl) = Some (File (Text (print_uidl u))) ->
-  lookup m' (PCtl f CUidl) = Some (File (Text (print_uidl (fold_left add_rec msgs u))))
-  /\ (forall a, In a msgs ->
-        lookup m' (PMsg f s (a_key a) (info_of_letters (a_flags a)))
-        = Some (File (Opaque (a_cid a))))
-  /\ (forall q, live_path q -> ~ In (key_of q) (map a_key msgs) -> lookup m' q = lookup m q).
-Proof.
-  intro Hs. pose proof (live_not_tmp _ Hs) as Hns.
-  induction msgs as [|a r IH]; intros m u m' A Hnd Hu.
-  - cbn in A. injection A as <-. cbn [fold_left]. repeat split; try assumption.
-    intros a [].
-  - inversion Hnd as [|? ? Hnot Hnd']; subst.
-    cbn [append_ops] in A. unfold add_ops, locked_rewrite, rewrite_ops, lock_op, unlock_op in A.
-    cbn [app] in A. fold (add_rec u a) in A.
-    set (K := a_key a) in *. set (info := info_of_letters (a_flags a)) in *.
-    (* run the twelve operations *)
-    cbn [apply_ops] in A.
-    destruct (apply_op lay m (OCreat (PMsg f STmp K []))) as [m1|] eqn:A1; [|discriminate].
-    destruct (apply_op lay m1 (OWrite (PMsg f STmp K []) (Opaque (a_cid a)))) as [m2|] eqn:A2; [|discriminate].
-    destruct (apply_op lay m2 (OUtime (PMsg f STmp K []))) as [m3|] eqn:A3; [|discriminate].
-    destruct (apply_op lay m3 (OLink (PMsg f STmp K []) (PMsg f s K info))) as [m4|] eqn:A4; [|discriminate].
-    destruct (apply_op lay m4 (OUnlink (PMsg f STmp K []))) as [m5|] eqn:A5; [|discriminate].
-    destruct (apply_op lay m5 (OCreat (PCtl f CUidlLock))) as [m6|] eqn:A6; [|discriminate].
-    destruct (apply_op lay m6 (OCreat (PTmp f (a_tmp a)))) as [m7|] eqn:A7; [|discriminate].
-    destruct (apply_op lay m7 (OWrite (PTmp f (a_tmp a)) (Text (print_uidl (add_rec u a))))) as [m8|] eqn:A8; [|discriminate].
-    destruct (apply_op lay m8 (ORename (PTmp f (a_tmp a)) (PCtl f CUidl))) as [m9|] eqn:A9; [|discriminate].
-    destruct (apply_op lay m9 (OUnlink (PCtl f CUidlLock))) as [m10|] eqn:A10; [|discriminate].
-    (* the uid list after the install *)
-    assert (T8 : lookup m8 (PTmp f (a_tmp a)) = Some (File (Text (print_uidl (add_rec u a))))).
-    { cbn [apply_op] in A8. destruct (lookup m7 (PTmp f (a_tmp a))) as [[|c0]|] eqn:E; try discriminate.
-      injection A8 as <-. rewrite (lookup_replace _ _ _ _ _ E), path_eqb_refl. reflexivity. }
-    assert (U10 : lookup m10 (PCtl f CUidl) = Some (File (Text (print_uidl (add_rec u a))))).
-    { rewrite (apply_op_frame _ _ _ _ (PCtl f CUidl) A10) by (cbn; intro E; discriminate E).
-      destruct (apply_rename _ _ _ _ _ A9) as [c [Hc Hl]]. rewrite T8 in Hc. injection Hc as <-.
-      rewrite Hl, path_eqb_refl. reflexivity. }
-    (* the delivered file *)
-    assert (F2 : lookup m2 (PMsg f STmp K []) = Some (File (Opaque (a_cid a)))).
-    { cbn [apply_op] in A2. destruct (lookup m1 (PMsg f STmp K [])) as [[|c0]|] eqn:E; try discriminate.
-      injection A2 as <-. rewrite (lookup_replace _ _ _ _ _ E), path_eqb_refl. reflexivity. }
-    assert (F3 : lookup m3 (PMsg f STmp K []) = Some (File (Opaque (a_cid a)))).
-    { cbn [apply_op] in A3. destruct (exists_ m2 (PMsg f STmp K [])); [|discriminate].
-      injection A3 as <-. exact F2. }
-    assert (F4 : lookup m4 (PMsg f s K info) = Some (File (Opaque (a_cid a)))).
-    { destruct (apply_link _ _ _ _ _ A4) as [c [Hc [_ Hl]]]. rewrite F3 in Hc. injection Hc as <-.
-      rewrite Hl, path_eqb_refl. reflexivity. }
-    assert (Fr : forall q, live_path q ->
-                 lookup m10 q = if path_eqb (PMsg f s K info) q
-                                then Some (File (Opaque (a_cid a))) else lookup m q).
-    { intros q [g [t [k0 [j [-> Ht]]]]].
-      pose proof (live_not_tmp _ Ht) as Hnt.
-      rewrite (apply_op_frame _ _ _ _ (PMsg g t k0 j) A10) by (cbn; intro E; discriminate E).
-      rewrite (apply_op_frame _ _ _ _ (PMsg g t k0 j) A9) by (cbn; intros [E|E]; discriminate E).
-      rewrite (apply_op_frame _ _ _ _ (PMsg g t k0 j) A8) by (cbn; intro E; discriminate E).
-      rewrite (apply_op_frame _ _ _ _ (PMsg g t k0 j) A7) by (cbn; intro E; discriminate E).
-      rewrite (apply_op_frame _ _ _ _ (PMsg g t k0 j) A6) by (cbn; intro E; discriminate E).
-      rewrite (apply_op_frame _ _ _ _ (PMsg g t k0 j) A5)
-        by (cbn; intro E; inversion E; subst; contradiction).
-      destruct (apply_link _ _ _ _ _ A4) as [c [Hc [_ Hl]]]. rewrite F3 in Hc. injection Hc as <-.
-      rewrite Hl. destruct (path_eqb (PMsg f s K info) (PMsg g t k0 j)); [reflexivity|].
-      cbn [apply_op] in A3. destruct (exists_ m2 (PMsg f STmp K [])); [|discriminate].
-      injection A3 as <-.
-      rewrite (apply_op_frame _ _ _ _ (PMsg g t k0 j) A2)
-        by (cbn; intro E; inversion E; subst; contradiction).
-      rewrite (apply_op_frame _ _ _ _ (PMsg g t k0 j) A1)
-        by (cbn; intro E; inversion E; subst; contradiction).
-      reflexivity. }
-    destruct (IH m10 (add_rec u a) m' A Hnd' U10) as [HU [HF HR]].
-    cbn [fold_left]. split; [exact HU|]. split.
-    + intros b [<-|Hb]; [|exact (HF b Hb)].
-      rewrite HR.
-      * rewrite Fr, path_eqb_refl; [reflexivity|].
-        exists f, s, K, info. split; [reflexivity|exact Hs].
-      * exists f, s, K, info. split; [reflexivity|exact Hs].
-      * cbn [key_of]. exact Hnot.
-    + intros q Hq Hk. cbn [map In] in Hk.
-      rewrite HR; [|exact Hq|intro Hin; apply Hk; right; exact Hin].
-      rewrite (Fr q Hq).
-      destruct (path_eqb (PMsg f s K info) q) eqn:E; [|reflexivity].
-      apply path_eqb_eq in E. subst q. exfalso. apply Hk. left. reflexivity.
-Qed.
-
-Lemma before_colon_key k x : forallb value_char k = true -> before_colon (k ++ 58 :: x) = k.
-Proof.
-  induction k as [|c k IH]; intro H; [reflexivity|]. cbn [forallb] in H.
-  apply andb_true_iff in H as [Hc Hk]. cbn [app before_colon].
-  destruct (N.eqb_spec c 58) as [E|_]; [apply value_char_props in Hc; lia|].
-  rewrite (IH Hk). reflexivity.
-Qed.
-
-Lemma fold_add_rec msgs : forall u, wf_uidl u = true -> uids_ok u ->
-  (forall a, In a msgs -> wf_amsg a = true) ->
-  wf_uidl (fold_left add_rec msgs u) = true /\ uids_ok (fold_left add_rec msgs u)
-  /\ u_val (fold_left add_rec msgs u) = u_val u
-  /\ (forall uid k, recorded u uid k -> recorded (fold_left add_rec msgs u) uid k)
-  /\ (forall j a, nth_error msgs j = Some a ->
-        recorded (fold_left add_rec msgs u) (u_next u + N.of_nat j) (a_key a)).
-Proof.
-  induction msgs as [|a r IH]; intros u Hw Hok Hm; cbn [fold_left].
-  - split; [exact Hw|]. split; [exact Hok|]. split; [reflexivity|]. split; [intros; assumption|].
-    intros j a H. destruct j; discriminate H.
-  - assert (Hwa : wf_amsg a = true) by (apply Hm; left; reflexivity).
-    pose proof (with_rec_wf u a Hw Hok Hwa) as Hw1.
-    pose proof (with_rec_uids_ok u [(69, a_e a); (84, a_t a)]
-                  (a_key a ++ 58 :: info_of_letters (a_flags a)) Hok) as Hok1.
-    fold (add_rec u a) in Hw1, Hok1.
-    destruct (IH (add_rec u a) Hw1 Hok1 (fun b Hb => Hm b (or_intror Hb)))
-      as [Hwf [Hokf [Hv [Hkeep Hnew]]]].
-    pose proof (with_rec_recs u [(69, a_e a); (84, a_t a)]
-                  (a_key a ++ 58 :: info_of_letters (a_flags a)) Hok) as E.
-    fold (add_rec u a) in E.
-    split; [exact Hwf|]. split; [exact Hokf|]. split; [rewrite Hv; reflexivity|]. split.
-    + intros uid k [x [Hx [Hu Hk]]]. apply Hkeep. exists x. split; [|split; assumption].
-      rewrite E. apply in_or_app. left. exact Hx.
-    + intros [|j] b Hb; cbn [nth_error] in Hb.
-      * injection Hb as <-. apply Hkeep. eexists. split; [rewrite E; apply in_or_app; right; left; reflexivity|].
-        cbn [r_uid]. split; [cbn; lia|]. unfold r_key. cbn [r_fname].
-        unfold wf_amsg in Hwa. apply andb_true_iff in Hwa as [Hwa _].
-        apply andb_true_iff in Hwa as [Hk _]. exact (before_colon_key _ _ Hk).
-      * specialize (Hnew j b Hb).
-        assert (En : u_next (add_rec u a) = u_next u + 1) by reflexivity.
-        rewrite En in Hnew.
-        replace (u_next u + N.of_nat (S j)) with (u_next u + 1 + N.of_nat j) by lia. exact Hnew.
-Qed.
-
-(* every message of a completed APPEND is served under the uid announced for
-   it (next, next+1, ...), with the requested system flags and its content *)
-Theorem append_acked_served lay f s msgs m u m' :
-  live s = true ->
-  apply_ops lay m (append_ops f s u msgs) = (m', true) ->
-  NoDup (map a_key msgs) ->
-  lookup m (PCtl f CUidl) = Some (File (Text (print_uidl u))) ->
-  wf_uidl u = true -> uids_ok u -> (forall a, In a msgs -> wf_amsg a = true) ->
-  forall j a, nth_error msgs j = Some a ->
-  serves m' f (u_val u) (u_next u + N.of_nat j) (a_key a)
-         (flags_of_info (info_of_letters (a_flags a))) (a_cid a).
-Proof.
-  intros Hs A Hnd Hu Hw Hok Hm j a Hj.
-  destruct (append_ops_apply lay f s Hs msgs m u m' A Hnd Hu) as [HU [HF _]].
-  destruct (fold_add_rec msgs u Hw Hok Hm) as [Hwf [_ [Hv [_ Hnew]]]].
-  exists (fold_left add_rec msgs u), (info_of_letters (a_flags a)).
-  split; [exists (print_uidl (fold_left add_rec msgs u)); split;
-          [exact HU|exact (uidl_roundtrip _ Hwf)]|].
-  split; [exact Hv|]. split; [exact (Hnew j a Hj)|]. split; [|reflexivity].
-  exists s. split; [exact Hs|]. apply HF. exact (nth_error_In _ _ Hj).
-Qed.
+Theorem hist_move_file_once lay m sel h k key f i c f' i' c' :
+  Inv m ->
+  file_at (after_crash lay m (hist_ops lay m sel h) k) f key i c ->
+  file_at (after_crash lay m (hist_ops lay m sel h) k) f' key i' c' ->
+  f = f' /\ i = i' /\ c = c'.
+Proof. intro I. exact (move_file_once lay m _ k key f i c f' i' c' I (hist_ops_legal lay h m sel I)). Qed.
